@@ -3,7 +3,7 @@ from __future__ import annotations
 
 import ast
 
-from ..loops import dotted, find_env_loop, strip_wrappers
+from ..loops import find_env_loop, strip_wrappers
 from ..nf import NF, Scope, Poly, parse_expr
 from ..repo import Repo, loc, short, AnalysisError, positional_params, param_names, bind_call
 from ..resolve import Resolver
@@ -13,12 +13,16 @@ from ..cfg import Def
 
 EXPLANATION = (
     "The exploration / target-smoothing samplers and the tanh head are compared as normal forms with the documented formulas "
-    "(clip domination is part of the formula: the returned value *is* clip(., low, high)). The factories are resolved through "
-    "partial / jit to check that (low, high, 0.5*(high-low), noise[, noise_clip]) are bound in that order from the same action space. "
+    "(clip domination is part of the formula: the returned value *is* clip(., low, high)); parameters are identified by their position in "
+    "the recorded signature, not by name. The factories are resolved through partial / jit / closures and the bound arguments are read by "
+    "signature (positional or keyword): (low, high, 0.5*(high-low), noise[, noise_clip]) from the same action space. "
     "In every continuous-control loop the env.step argument is traced (reaching definitions) to either the seeded space sampler or the "
     "clipped sampler built from env.action_space. CEM: the proposal formula bounds the standard deviation by half the distance to "
-    "either bound and truncates the normal at +-2 (2 * 0.5 <= 1), the update is a convex combination (coefficients alpha and 1-alpha); "
-    "the PETS planning chain (bounds stacked from the action space, mid-point initial plan and padding, plan[0] returned) is structural. "
+    "either bound and truncates the normal at +-2 (2 * 0.5 <= 1) - a missing cap is reported only with a numeric witness (concrete bounds, "
+    "mean and variance for which |Z|*std exceeds the distance to the bound); the update is a convex combination (coefficients alpha and "
+    "1-alpha); the PETS planning chain (bounds stacked from the action space, mid-point initial plan and padding, plan[0] returned, "
+    "candidates from sample_fn) is read from normal forms along the paths. A difference is reported only when the value that was read is "
+    "built from the documented quantities (or has a known other provenance); any other form is left undecided. "
     "That a convex combination of in-box points stays in the box is the standard argument; the checker decides its premises."
 )
 TRUSTED = ["jnp.clip(x, lo, hi) lies in [lo, hi]; tanh in [-1, 1]; truncated_normal(key, -2, 2) in [-2, 2]; gymnasium Box.low/high/sample", "convexity: alpha*m + (1-alpha)*mean(elites) lies in the box if m and the elites do"]
@@ -37,30 +41,97 @@ def _env(fn):
     return {p: Poly.atom(p, {p}, {p}) for p in param_names(fn)}
 
 
-def formula(ck, repo, nf, rule, q, spec, key="formula", self_class=None):
+def _fill(spec, fn, qual):
+    """The documented formula with `{i}` standing for the i-th parameter of the recorded signature (roles by position, not by name)."""
+    import re
+    ps = param_names(fn)
+    n = max([int(i) for i in re.findall(r"\{(\d+)\}", spec)] + [-1]) + 1
+    if len(ps) < n:
+        raise AnalysisError(f"{qual}: fewer than {n} parameters (signature changed, anchor vanished)")
+    return spec.format(*ps)
+
+
+def _unread(p: Poly) -> bool:
+    """The normal form contains something the engine did not read: a merge of definitions, an opaque construct, a helper temporary."""
+    import re
+    c = p.canon()
+    return "φ(" in c or "⟦" in c or re.search(r"__i\d+\b", c) is not None
+
+
+def _decide(ck, nf, rule, site, key, got: Poly, wants, shown, why, where, extra=()):
+    """Equal to (one of the spellings of) the documented value -> holds.  Different -> a violation only with evidence (see _evidence):
+    a numeric witness, or at least a value built from the documented ingredients; anything else is a form not read here."""
+    wants = wants if isinstance(wants, (list, tuple)) else [wants]
+    ok = any(got == w for w in wants)
+    wit = "" if ok else _evidence(nf, site, key, got, wants, extra=extra)
+    ck.ob(rule, site, key, ok, shown, "" if ok else why + (f" ({wit})" if wit else ""), where)
+    return ok
+
+
+def _method(ck, repo, cls_qual, name):
+    """(owner class, FunctionDef) of a method looked up through the base classes."""
+    m = repo.method(cls_qual, name)
+    ck.need(m is not None, f"{cls_qual}.{name} not found (anchor vanished)")
+    owner, fn = m
+    fn._module = repo.cls(owner)._module
+    return owner, fn
+
+
+def _value_returns(cfg):
+    return [n for n in cfg.nodes if n.kind == "stmt" and isinstance(n.ast, ast.Return) and n.ast.value is not None]
+
+
+def _node_containing(cfg, sub):
+    """CFG node whose statement / test contains the expression object ``sub``."""
+    for n in cfg.nodes:
+        if n.ast is None:
+            continue
+        roots = [n.ast.test] if n.kind == "test" and hasattr(n.ast, "test") else [n.ast.iter] if n.kind == "for" and hasattr(n.ast, "iter") else [n.ast] if n.kind == "stmt" else []
+        for r in roots:
+            if any(x is sub for x in ast.walk(r)):
+                return n.id
+    return None
+
+
+def _roles(fn, roles, skip=0):
+    ps = param_names(fn)
+    r = roles or {}
+    return {"names": ps[skip:], "low": ps[r["low"]] if "low" in r else None, "high": ps[r["high"]] if "high" in r else None, "pos": [ps[i] for i in r.get("pos", [])]}
+
+
+BLOCKS = ("minimum", "maximum", "clip", "where", "abs")
+
+
+def formula(ck, repo, nf, rule, q, spec, key="formula", self_class=None, alts=(), roles=None):
+    """``spec`` (and the alternative spellings ``alts``) name the parameters by position: `{0}` is the first parameter (self for methods).
+    roles: positions of the lower / upper bound and of the positive parameters (for the numeric witness)."""
     if self_class:
-        m = repo.method(self_class, q, inherited=False)
-        ck.need(m is not None, f"{self_class}.{q} not found")
-        fn = m[1]
-        fn._module = repo.cls(self_class)._module
+        owner, fn = _method(ck, repo, self_class, q)
         qual = f"{self_class}.{q}"
         cfg = nf.cfg_of(fn)
-        env = {p: Poly.atom(p, {p}, {p}) for p in positional_params(fn) if p != "self"}
+        ps = param_names(fn)
+        ck.need(len(ps) >= 1, f"{qual}: no receiver parameter")
+        env = {p: Poly.atom(p, {p}, {p}) for p in ps[1:]}
         sc = Scope(cfg, fn._module, env, qual, self_class=self_class)
-        rets = [n for n in cfg.nodes if n.kind == "stmt" and isinstance(n.ast, ast.Return)]
+        rets = _value_returns(cfg)
+        if len(rets) != 1:
+            raise AnalysisError(f"{qual}: {len(rets)} return statements (unrecognised form)")
         got = nf.poly(rets[0].ast.value, sc, rets[0].id)
     else:
         fn = repo.func(q)
         qual = q
         env = _env(fn)
-        got = nf.return_poly(q, env)
-    want = nf.poly(parse_expr(spec), Scope(None, fn._module, env, qual, self_class=self_class), None)
-    ok = got == want
+        try:
+            got = nf.return_poly(q, env)
+        except ValueError:
+            return _formula_per_path(ck, repo, nf, rule, fn, qual, _fill(spec, fn, qual), key, roles)
+    wants = [nf.poly(parse_expr(_fill(s_, fn, qual)), Scope(None, fn._module, env, qual, self_class=self_class), None) for s_ in (spec,) + tuple(alts)]
+    want = wants[0]
+    ok = any(got == w for w in wants)
     if not ok and "φ(" in got.canon() and not self_class:
-        return _formula_per_path(ck, repo, nf, rule, fn, qual, spec, key)
-    if not ok and ("φ(" in got.canon() or not same_ingredients(got, want, ("minimum", "maximum", "clip", "where", "abs"))):
-        raise AnalysisError(f"{qual}: `{got.canon()[:120]}` is not written with the documented building blocks / depends on a branch (unrecognised form)")
-    ck.ob(rule, qual, key, ok, f"{got.canon()[:170]}", "" if ok else f"differs from the documented formula `{want.canon()[:170]}`", loc(fn._module, fn))
+        return _formula_per_path(ck, repo, nf, rule, fn, qual, _fill(spec, fn, qual), key, roles)
+    wit = "" if ok else _evidence(nf, qual, "the value", got, wants, roles=_roles(fn, roles, 1 if self_class else 0), tokens_extra=BLOCKS)
+    ck.ob(rule, qual, key, ok, f"{got.canon()[:170]}", "" if ok else f"differs from the documented formula `{want.canon()[:170]}`" + (f" ({wit})" if wit else ""), loc(fn._module, fn))
     return got
 
 
@@ -76,12 +147,11 @@ def _param_default(fn, name):
     return None
 
 
-def _formula_per_path(ck, repo, nf, rule, fn, qual, spec, key):
+def _formula_per_path(ck, repo, nf, rule, fn, qual, spec, key, roles=None):
     """The value depends on branches over parameters: compare path by path.  A parameter the documented formula does not mention is
     taken at its default (the formula documents the default configuration); for a parameter of the formula, the falsy arm of a
     truthiness test is the case `parameter == 0` (None is outside the documented domain)."""
     from ..sympath import enumerate_paths, PathEval
-    from ..sem import ingredient_tokens
     mi = fn._module
     from ..sem import with_callees_inlined
     fn2 = with_callees_inlined(repo, fn, qual)
@@ -105,6 +175,12 @@ def _formula_per_path(ck, repo, nf, rule, fn, qual, spec, key):
             while isinstance(t, ast.UnaryOp) and isinstance(t.op, ast.Not):
                 t, neg = t.operand, not neg
             kind = None
+            if isinstance(t, ast.Constant) or (isinstance(t, ast.Compare) and len(t.ops) == 1 and isinstance(t.left, ast.Constant) and isinstance(t.comparators[0], ast.Constant) and t.comparators[0].value is None and isinstance(t.ops[0], (ast.Is, ast.IsNot))):
+                # a test that is constant after an option was fixed / a helper was expanded (`None is not None`): only one arm exists
+                truth = bool(t.value) if isinstance(t, ast.Constant) else ((t.left.value is None) == isinstance(t.ops[0], ast.Is))
+                if lab != (truth != neg):
+                    feasible = False
+                continue
             if isinstance(t, ast.Name):
                 pname, kind = t.id, "truth"
             elif isinstance(t, ast.Compare) and len(t.ops) == 1 and isinstance(t.left, ast.Name) and isinstance(t.comparators[0], ast.Constant) and t.comparators[0].value is None and isinstance(t.ops[0], (ast.Is, ast.IsNot)):
@@ -145,12 +221,12 @@ def _formula_per_path(ck, repo, nf, rule, fn, qual, spec, key):
             continue
         seen.add(sig)
         ok = ret == want
+        where_ = ', '.join(facts) or 'default configuration'
         want_sym = nf.poly(parse_expr(spec), Scope(None, mi, {p_: Poly.atom(p_, {p_}, {p_}) for p_ in params}, qual), None)
-        if not ok and ("φ(" in ret.canon() or not same_ingredients(ret, want_sym, ("minimum", "maximum", "clip", "where", "abs"))):
-            raise AnalysisError(f"{qual}: `{ret.canon()[:120]}` ({', '.join(facts) or 'default configuration'}) is not written with the documented building blocks (unrecognised form)")
+        wit = "" if ok else _evidence(nf, qual, f"the value ({where_})", ret, [want], roles=_roles(fn, roles), universe=[want_sym], fixed={p_: 0.0 for p_ in zero}, tokens_extra=BLOCKS)
         n_cmp += 1
-        ck.ob(rule, qual, key if n_cmp == 1 else f"{key}:{n_cmp}", ok, f"{ret.canon()[:150]}  [{', '.join(facts) or 'default configuration'}]",
-              "" if ok else f"on the path where {', '.join(facts) or 'the defaults apply'} the value differs from the documented formula `{want.canon()[:150]}`", loc(mi, fn))
+        ck.ob(rule, qual, key if n_cmp == 1 else f"{key}:{n_cmp}", ok, f"{ret.canon()[:150]}  [{where_}]",
+              "" if ok else f"on the path where {', '.join(facts) or 'the defaults apply'} the value differs from the documented formula `{want.canon()[:150]}`" + (f" ({wit})" if wit else ""), loc(mi, fn))
     if not n_cmp:
         raise AnalysisError(f"{qual}: no path of the function is in the documented domain (unrecognised form)")
     return None
@@ -213,15 +289,32 @@ def _min_leaves(nf, atom):
     return None
 
 
-def _cem_parts(nf, CS, env):
-    """('clip', args) | ('affine', T, leaves, squared) | raises AnalysisError.  leaves: Polys whose minimum is the std (squared=False) or the variance (squared=True)."""
-    got = nf.return_poly(CS, env)
+def _short_fn(nf, atom):
+    return (nf.meta.get(atom or "", {}).get("fn") or "").split(".")[-1]
+
+
+def _is_view_of(nf, atom, base):
+    """``atom`` is ``base`` or ``base[...]`` (an indexing / newaxis view of it)."""
+    while atom != base and nf.meta.get(atom, {}).get("fn") == "subscript" and nf.meta[atom].get("args"):
+        nxt = nf.meta[atom]["args"][0].single_atom()
+        if not nxt:
+            return False
+        atom = nxt
+    return atom == base
+
+
+def _cem_parts(nf, CS, env, names):
+    """('clip', args) | ('affine', T, leaves, squared) | raises AnalysisError.  leaves: Polys whose minimum is the std (squared=False) or the variance (squared=True).
+    names = (mean, lb, ub): the parameters of cem_sample by position."""
+    MEAN, LB, UB = names
+    try:
+        got = nf.return_poly(CS, env)
+    except ValueError as e:
+        raise AnalysisError(f"{CS}: {e} (unrecognised form)")
     sa = got.single_atom()
-    if sa and nf.meta.get(sa, {}).get("fn") == "clip" and len(nf.meta[sa].get("args", [])) == 3:
-        a3 = [x.canon() for x in nf.meta[sa]["args"]]
-        lo = [x for x in a3[:2] if x.startswith("lb")]
-        return ("clip", [lo[0] if lo else a3[1], a3[2]], sa)
-    mean_b = [a for a in got.atoms() if a.startswith("mean[")]
+    if sa and _short_fn(nf, sa) == "clip" and len(nf.meta[sa].get("args", [])) == 3 and not nf.meta[sa].get("kws"):
+        return ("clip", list(nf.meta[sa]["args"]), sa)
+    mean_b = [a for a in got.atoms() if _is_view_of(nf, a, env[MEAN].single_atom() or MEAN)]
     if len(got.terms) != 2 or len(mean_b) != 1:
         raise AnalysisError(f"{CS}: candidates `{got.canon()[:140]}` are neither clip(., lb, ub) nor noise*std + mean (unrecognised idiom)")
     noise_term = [(m_, c_) for m_, c_ in got.terms.items() if not any(a == mean_b[0] for a, _ in m_)]
@@ -229,13 +322,16 @@ def _cem_parts(nf, CS, env):
         # the std may have collapsed to 0 under a substitution: then only the mean term is left
         raise AnalysisError(f"{CS}: perturbation term of `{got.canon()[:140]}` not recognised")
     atoms = [a for a, e in noise_term[0][0]]
-    z = next((a for a in atoms if "truncated_normal(" in a), None)
-    sd = next((a for a in atoms if a != z), None)
+    z = next((a for a in atoms if _short_fn(nf, a) == "truncated_normal"), None)
     if z is None:
-        return ("untruncated", got.canon())
+        if any(_short_fn(nf, a) == "normal" for a in atoms) and not _unread(got):
+            return ("untruncated", got.canon())
+        raise AnalysisError(f"{CS}: the random factor of `{got.canon()[:140]}` is not read (unrecognised idiom)")
+    sd = next((a for a in atoms if a != z), None)
     zm = nf.meta.get(z, {})
+    za, zk = zm.get("args", []), zm.get("kws", {})
     try:
-        lo, hi = float(zm["args"][1].const_value()), float(zm["args"][2].const_value())
+        lo, hi = float((za[1] if len(za) > 1 else zk["lower"]).const_value()), float((za[2] if len(za) > 2 else zk["upper"]).const_value())
     except Exception:
         raise AnalysisError(f"{CS}: truncation bounds of `{z[:80]}` are not constants")
     T = max(abs(lo), abs(hi))
@@ -256,115 +352,445 @@ def _cem_parts(nf, CS, env):
     return ("affine", T, leaves if leaves is not None else [Poly.atom(inner)], False)
 
 
+VIEWS = ("[jax.numpy.newaxis]", "[numpy.newaxis]", "[None]", "[None, :]", "[jax.numpy.newaxis, :]", "[Ellipsis]", "[...]")
+
+
+class _Num:
+    """Numeric reading of a *scalar* normal form (all the formulas of this property are elementwise, so scalars suffice): parameters take
+    the given values, clip / minimum / maximum / abs / sqrt / tanh ... are computed, broadcasting and added axes are the identity, and
+    every other quantity (a call of the policy, a random draw, an attribute of a space) is an *opaque* value that is a fixed pseudo-random
+    function of its name and of the values of its arguments - so two spellings of the same quantity get the same value.  ``used`` records
+    the opaque quantities a value was computed from.  strict: opaque quantities are not allowed (the value must be computable)."""
+
+    def __init__(self, nf, vals: dict, seed=0, strict: bool = False):
+        self.nf, self.vals, self.seed, self.strict = nf, dict(vals), seed, strict
+        self.used = set()
+
+    def _rnd(self, key):
+        import random
+        import zlib
+        return random.Random(zlib.crc32(repr((self.seed, key)).encode())).uniform(-2.0, 2.0)
+
+    def opaque(self, key):
+        if self.strict:
+            return None
+        self.used.add(f"{key[0]}:{key[1]}" if key[0] in ("name", "index") else key[0])     # which quantity (not: of which arguments)
+        return self._rnd(key)
+
+    def poly(self, p: Poly, depth: int = 0):
+        if depth > 14:
+            return None
+        if p.elems is not None:
+            xs = [self.poly(e, depth + 1) for e in p.elems]
+            return None if any(x is None for x in xs) else self.opaque(("tuple",) + tuple(round(x, 9) for x in xs))
+        tot = 0.0
+        for mono, c in p.terms.items():
+            v = float(c)
+            for a, e in mono:
+                x = self.atom(a, depth)
+                if x is None:
+                    return None
+                try:
+                    v *= x ** e
+                except (ZeroDivisionError, OverflowError, ValueError):
+                    return None
+                if isinstance(v, complex):
+                    return None
+            tot += v
+        return tot
+
+    def atom(self, a: str, depth: int):
+        if a in self.vals:
+            return self.vals[a]
+        m = self.nf.meta.get(a, {})
+        f = m.get("fn") or ""
+        short_ = f.split(".")[-1]
+        args, kws = m.get("args", []), m.get("kws", {})
+        if not f or (not args and not kws):
+            return self.opaque(("name", a))
+        xs = [self.poly(x, depth + 1) for x in args]
+        ks = {k: self.poly(v, depth + 1) for k, v in kws.items()}
+        if any(x is None for x in xs) or any(v is None for v in ks.values()):
+            return None
+        r = lambda x: round(x, 9)   # noqa: E731
+        try:
+            if f == "attr" and len(xs) == 1 and not ks:
+                name = a[len(args[0].canon()) + 1:]
+                if name == "high":      # a box: low < high
+                    lo = self.opaque(("attr:low", r(xs[0])))
+                    self.used.add("attr:high")
+                    return None if lo is None else lo + 0.5 + abs(self._rnd(("attr:high", r(xs[0]))))
+                return self.opaque(("shape" if name == "shape" else "attr:" + name, r(xs[0])))
+            if f in ("subscript", "proj") and len(xs) == 1 and not ks:
+                idx = a[len(args[0].canon()):]
+                return xs[0] if idx in VIEWS else self.opaque(("index", idx, r(xs[0])))
+            if not ks:
+                if short_ in ("abs", "absolute", "fabs") and len(xs) == 1:
+                    return abs(xs[0])
+                if short_ in ("minimum", "min", "fmin") and len(xs) >= 2:
+                    return min(xs)
+                if short_ in ("maximum", "max", "fmax") and len(xs) >= 2:
+                    return max(xs)
+                if short_ == "sqrt" and len(xs) == 1:
+                    return xs[0] ** 0.5 if xs[0] >= 0 else None
+                if short_ == "square" and len(xs) == 1:
+                    return xs[0] * xs[0]
+                if short_ == "pow" and len(xs) == 2:
+                    v = xs[0] ** xs[1]
+                    return None if isinstance(v, complex) else v
+                if short_ == "tanh" and len(xs) == 1:
+                    import math
+                    return math.tanh(xs[0])
+                if short_ == "clip" and len(xs) == 3:
+                    return min(max(xs[0], xs[1]), xs[2])       # clip(x, lo, hi) == minimum(maximum(x, lo), hi), symmetric in (x, lo)
+                if short_ == "broadcast_to" and len(xs) == 2:
+                    return xs[0]
+                if short_ == "shape" and len(xs) == 1:
+                    return self.opaque(("shape", r(xs[0])))
+        except (ZeroDivisionError, OverflowError, ValueError):
+            return None
+        return self.opaque((short_, tuple(r(x) for x in xs), tuple(sorted((k, r(v)) for k, v in ks.items()))))
+
+
+def _witness(nf, got: Poly, want: Poly, roles: dict | None = None, extra=(), universe=(), fixed: dict | None = None):
+    """('differ', text): for concrete values of the parameters the value that was read and the documented value are different numbers, and
+    the value that was read is computed from opaque quantities of the documented formula only (plus ``extra`` function names, plus those
+    of the polys in ``universe``) - a witness.  ('same', None): equal on every sample (an equivalent spelling as far as one can tell).
+    ('foreign', None): differs, but involves quantities the documented formula does not have.  (None, None): not computable.
+    roles: {'low': name, 'high': name, 'pos': [names], 'names': [all parameter names]}."""
+    roles = roles or {}
+    names = list(roles.get("names", []))
+    foreign = False
+    for seed in range(64):
+        base = _Num(nf, {}, seed)
+        vals = {n_: base._rnd(("param", n_)) for n_ in names}
+        for n_ in roles.get("pos", []):
+            vals[n_] = 0.1 + abs(vals[n_])
+        if roles.get("low") and roles.get("high"):
+            # narrow and wide boxes: an outer clip that always saturates would hide what happens inside it
+            vals[roles["high"]] = vals[roles["low"]] + 0.3 + abs(base._rnd(("range",))) * (0.5 if seed % 2 else 6.0)
+        vals.update(fixed or {})
+        ng, nw = _Num(nf, vals, seed), _Num(nf, vals, seed)
+        g, w = ng.poly(got), nw.poly(want)
+        for u in universe:
+            nw.poly(u)
+        if g is None or w is None:
+            return None, None
+        if abs(g - w) > 1e-9 * (1 + abs(w)):
+            if {k for k in ng.used if k not in extra} <= nw.used:
+                shown = ", ".join(f"{k}={v:.3g}" for k, v in sorted(vals.items())[:8])
+                return "differ", f"numerically different, e.g. {shown + ': ' if shown else ''}{g:.5g} instead of {w:.5g}"
+            foreign = True
+    return ("foreign", None) if foreign else ("same", None)
+
+
+def _evidence(nf, site, what, got: Poly, wants, roles=None, extra=(), universe=(), fixed=None, tokens_extra=()):
+    """The value that was read differs from (every spelling of) the documented one.  Returns the witness text for a violation, raises
+    AnalysisError when the difference is not established: unread parts, an equivalent spelling on all samples, foreign quantities; when the
+    values cannot be computed the weaker criterion `built from the documented ingredients only` decides."""
+    wants = list(wants) if isinstance(wants, (list, tuple)) else [wants]
+    if _unread(got):
+        raise AnalysisError(f"{site}: {what} `{got.canon()[:110]}` is not completely read (unrecognised form)")
+    res_ = [_witness(nf, got, w, roles, extra, universe, fixed) for w in wants]
+    if any(v == "same" for v, _ in res_):
+        raise AnalysisError(f"{site}: {what} `{got.canon()[:110]}` agrees with the documented value on every sample: another spelling of it (unrecognised form)")
+    hit = next((t for v, t in res_ if v == "differ"), None)
+    if hit is not None:
+        return hit
+    if any(v is None for v, _ in res_):
+        from ..sem import ingredient_tokens
+        allowed = set(tokens_extra) | set(extra)
+        for u in universe:
+            allowed |= ingredient_tokens(u)
+        if any(same_ingredients(got, w, tuple(allowed)) for w, (v, _) in zip(wants, res_) if v is None):
+            return ""
+        raise AnalysisError(f"{site}: {what} `{got.canon()[:110]}` is not written with the documented building blocks (unrecognised form)")
+    raise AnalysisError(f"{site}: {what} `{got.canon()[:110]}` involves quantities the documented formula does not have (unrecognised form)")
+
+
+def _ratio(p: Poly, d: Poly):
+    """k with p == k*d, else None."""
+    if not p.terms or not d.terms or len(p.terms) != len(d.terms):
+        return None
+    ks = set()
+    for m_, c_ in d.terms.items():
+        if m_ not in p.terms:
+            return None
+        ks.add(p.terms[m_] / c_)
+    return ks.pop() if len(ks) == 1 else None
+
+
+def _nonneg(nf, p: Poly, d1: dict) -> bool:
+    """Known to be >= 0 whenever lb <= mean <= ub: |.|, sqrt, a square, a non-negative multiple of a distance to a bound."""
+    a = p.single_atom()
+    if a and _short_fn(nf, a) in ("abs", "absolute", "sqrt", "square"):
+        return True
+    return any((k := _ratio(p, d)) is not None and k >= 0 for d in d1.values())
+
+
+def _caps(nf, leaf: Poly, d1: dict, power: int, depth: int = 0):
+    """[(side, k)]: leaf <= k * (distance to that bound)^power for every mean inside the box (the documented domain of the planner).
+    Read from k*d^power itself, from |k'*d|^power, and from c*minimum(a, b, ..)^e with non-negative a, b (then it is <= c*a^e, c*b^e)."""
+    out = [(side, k) for side, d in d1.items() if (k := _ratio(leaf, d.pow(power))) is not None and k >= 0]
+    if out or depth > 4 or len(leaf.terms) != 1:
+        return out
+    (mono, c), = leaf.terms.items()
+    if c <= 0 or len(mono) != 1 or mono[0][1] < 1:
+        return []
+    atom, e = mono[0]
+    m = nf.meta.get(atom, {})
+    args = m.get("args", [])
+    if m.get("kws"):
+        return []
+    if _short_fn(nf, atom) in ("abs", "absolute") and len(args) == 1 and e == power:
+        return [(side, c * abs(k) ** e) for side, d in d1.items() if (k := _ratio(args[0], d)) is not None]
+    if _short_fn(nf, atom) in ("minimum", "min") and len(args) >= 2 and all(_nonneg(nf, a_, d1) for a_ in args):
+        for a_ in args:
+            out += _caps(nf, a_.pow(e).scale(c), d1, power, depth + 1)
+    return out
+
+
 def _cem_sample(ck, repo, nf, CS):
-    """candidates = Z * S + mean with |Z| <= T and S = min(leaves): bounded iff for each bound some leaf is <= c*distance with T*c <= 1;
-    a necessary condition is that S vanishes when the mean sits on the bound (decided by substitution lb := mean resp. ub := mean);
-    or the candidates are an outermost clip(., lb, ub)."""
+    """candidates = Z * S + mean with |Z| <= T and S = min(leaves): bounded if for each bound some leaf is <= c*distance with T*c <= 1
+    (for means inside the box); without such a cap a violation needs a numeric witness; or the candidates are an outermost clip(., lb, ub).  The roles (mean, lb, ub) are the parameters 0, 4, 5 of the recorded signature."""
     fn = repo.func(CS)
     mi = fn._module
     env = _env(fn)
     where = loc(mi, fn)
-    parts = _cem_parts(nf, CS, env)
+    ps = param_names(fn)
+    ck.need(len(ps) >= 6, f"{CS}: signature changed (anchor vanished)")
+    MEAN, LB, UB = names = (ps[0], ps[4], ps[5])
+    parts = _cem_parts(nf, CS, env, names)
     if parts[0] == "clip":
-        ok = parts[1] in (["lb", "ub"], ["lb[jax.numpy.newaxis]", "ub[jax.numpy.newaxis]"], ["lb[numpy.newaxis]", "ub[numpy.newaxis]"])
-        ck.ob("R4-cem-proposal", CS, "bounded", ok, f"return {parts[2][:120]}", "" if ok else "candidates are clipped to something else than [lb, ub]", where)
+        # clip(x, lo, hi) is stored with its first two arguments in canonical order: the lower bound is whichever of them is a view of a bound
+        def _view(p_, nm):
+            return bool(p_.single_atom()) and _is_view_of(nf, p_.single_atom(), nm)
+        a3 = parts[1]
+        los = [x for x in a3[:2] if _view(x, LB) or _view(x, UB)]
+        hi_ = a3[2]
+        if len(los) != 1 or not (_view(hi_, LB) or _view(hi_, UB)):
+            raise AnalysisError(f"{CS}: candidates are `{parts[2][:100]}`: the clipping interval is not read as the bounds (unrecognised form)")
+        ok = _view(los[0], LB) and _view(hi_, UB)
+        ck.ob("R4-cem-proposal", CS, "bounded", ok, f"return {parts[2][:120]}", "" if ok else f"candidates are clipped to [{los[0].canon()[:30]}, {hi_.canon()[:30]}], not to [{LB}, {UB}]", where)
         return
     if parts[0] == "untruncated":
         ck.ob("R4-cem-proposal", CS, "bounded", False, f"return {parts[1][:140]}", "the perturbation is not drawn from a truncated distribution: candidates are unbounded", where)
         return
     _, T, leaves, squared = parts
     sc = Scope(None, mi, env, CS)
-    dl = nf.poly(parse_expr("(mean - lb) ** 2" if squared else "mean - lb"), sc, None)
-    du = nf.poly(parse_expr("(ub - mean) ** 2" if squared else "ub - mean"), sc, None)
-
-    def coeff(leaf, d):
-        if not leaf.terms or not d.terms or len(leaf.terms) != len(d.terms):
-            return None
-        ks = set()
-        for m_, c_ in d.terms.items():
-            if m_ not in leaf.terms:
-                return None
-            ks.add(leaf.terms[m_] / c_)
-        return ks.pop() if len(ks) == 1 else None
-    kl = [k for k in (coeff(l, dl) for l in leaves) if k is not None]
-    ku = [k for k in (coeff(l, du) for l in leaves) if k is not None]
+    d1 = {"lower": nf.poly(parse_expr(f"{MEAN} - {LB}"), sc, None), "upper": nf.poly(parse_expr(f"{UB} - {MEAN}"), sc, None)}
+    caps = [c_ for l in leaves for c_ in _caps(nf, l, d1, 2 if squared else 1)]
+    kl = [k for side_, k in caps if side_ == "lower"]
+    ku = [k for side_, k in caps if side_ == "upper"]
     lim = (lambda k: T * T * float(k)) if squared else (lambda k: T * float(k))
     verdicts = []
-    for side, ks, bound in (("lower", kl, "lb"), ("upper", ku, "ub")):
+    for side, ks, bound in (("lower", kl, LB), ("upper", ku, UB)):
         if ks:
             okk = lim(min(ks)) <= 1.0 + 1e-12
-            verdicts.append((side, okk, f"|Z| <= {T:g}, {'variance' if squared else 'std'} <= {float(min(ks)):g}*{'(distance to ' + bound + ')^2' if squared else 'distance to ' + bound}",
+            verdicts.append((side, okk, f"|Z| <= {T:g}, {'variance' if squared else 'std'} <= {float(min(ks)):g}*{'(distance to ' + bound + ')^2' if squared else 'distance to ' + bound} for {MEAN} inside the box",
                              "" if okk else f"|Z|*std can reach {(lim(min(ks)) ** 0.5 if squared else lim(min(ks))):.3g} times the distance to the {side} bound (> 1): candidates can cross it"))
             continue
-        # no recognised cap for this side: necessary condition - with the mean on the bound the std must vanish
-        env2 = dict(env)
-        env2[bound] = env["mean"]
-        try:
-            p2 = _cem_parts(nf, CS, env2)
-        except AnalysisError:
-            # the perturbation term disappeared entirely: std == 0 on the bound, but the interior is not decided
-            raise AnalysisError(f"{CS}: the limit of the sampling std towards the {side} bound has a form this check cannot decide")
-        if p2[0] != "affine":
-            raise AnalysisError(f"{CS}: sampling form changes under {bound} := mean (unrecognised idiom)")
-        l2 = p2[2]
-        cond = any(any(t in a for t in ("where(", "Lt(", "LtE(", "Eq(", "select(", "ite(")) for l in l2 for a in l.atoms())
-        if any(l.is_zero() for l in l2):
-            raise AnalysisError(f"{CS}: the sampling std vanishes on the {side} bound, but its size in the interior ({[l.canon()[:50] for l in leaves]}) is not of the form c*distance: boundedness not decidable here")
-        if cond:
-            raise AnalysisError(f"{CS}: the sampling std is defined by cases ({[l.canon()[:50] for l in l2]}): boundedness not decidable here")
-        verdicts.append((side, False, f"with mean on the {side} bound the std is min{[l.canon()[:60] for l in l2]}",
-                         f"no factor of the sampling std vanishes when the mean lies on the {side} bound: it stays positive there for suitable inputs, so candidates cross the bound"))
+        # no recognised cap for this side: look for a witness - concrete (lb, ub, mean, var) for which |Z|*std exceeds the distance to
+        # the bound (the normal form of the std is evaluated numerically; elementwise, so scalars suffice).  No witness is no proof.
+        VAR = ps[1]
+        witness, unreadable = None, False
+        for lbv, ubv in ((-1.0, 1.0), (0.5, 3.0), (-7.0, -2.0), (-0.01, 1000.0)):
+            for fr in (0.0, 1.0, 0.1, 0.5, 0.9):
+                for vv in (1e-6, 1.0, 1e6):
+                    mv = lbv + fr * (ubv - lbv)
+                    vals = {LB: lbv, UB: ubv, MEAN: mv, VAR: vv}
+                    xs = [_Num(nf, vals, strict=True).poly(l) for l in leaves]
+                    if any(x is None for x in xs) or (squared and min(xs) < 0):
+                        unreadable = True
+                        continue
+                    sd = min(xs) ** 0.5 if squared else min(xs)
+                    dist = (mv - lbv) if side == "lower" else (ubv - mv)
+                    if witness is None and T * abs(sd) > dist * (1 + 1e-9) + 1e-12:
+                        witness = (lbv, ubv, mv, vv, sd, dist)
+        if witness is None:
+            raise AnalysisError(f"{CS}: the sampling std min{[l.canon()[:50] for l in leaves]} has no cap of the form c*(distance to the {side} bound) and {'its value cannot be computed' if unreadable else 'no counterexample was found'}: boundedness not decidable here (unrecognised form)")
+        lbv, ubv, mv, vv, sd, dist = witness
+        verdicts.append((side, False, f"std = {'sqrt of ' if squared else ''}min{[l.canon()[:60] for l in leaves]}",
+                         f"witness {LB}={lbv:g}, {UB}={ubv:g}, {MEAN}={mv:g}, {VAR}={vv:g}: std = {sd:.4g}, so |Z|*std reaches {T * abs(sd):.4g} > {dist:.4g} = distance to the {side} bound: candidates cross it"))
     ok = all(v[1] for v in verdicts)
     ck.ob("R4-cem-proposal", CS, "bounded", ok, "; ".join(v[2] for v in verdicts), "; ".join(v[3] for v in verdicts if v[3]), where)
+
+
+SPEC_SA = "jnp.clip({4}({5}) + {3} * {2} * jax.random.normal({6}, {4}({5}).shape), {0}, {1})"
+SPEC_STA = "jnp.clip({5}({6}) + jnp.clip({3} * {2} * jax.random.normal({7}, {5}({6}).shape), -({2} * {4}), {2} * {4}), {0}, {1})"
+SA, STA = "rl_blox.algorithm.ddpg.sample_actions", "rl_blox.algorithm.td3.sample_target_actions"
+MSA, MSTA = "rl_blox.algorithm.ddpg.make_sample_actions", "rl_blox.algorithm.td3.make_sample_target_actions"
+
+
+def _bound_by_signature(repo, t):
+    """parameter name -> bound expression for a resolved partial (positional prefix and keywords alike)."""
+    tfn = repo.func(t.qual)
+    tps = positional_params(tfn)
+    if len(t.prefix) > len(tps) or any(isinstance(a, ast.Starred) for a in t.prefix):
+        raise AnalysisError(f"{t.qual}: more arguments bound than the signature has / starred arguments (unrecognised form)")
+    bound = dict(zip(tps, t.prefix))
+    for k, v in t.kwargs.items():
+        if k in bound or k not in param_names(tfn):
+            raise AnalysisError(f"{t.qual}: keyword `{k}` of the partial does not bind a free parameter (unrecognised form)")
+        bound[k] = v
+    return tfn, bound
+
+
+def _other_routine(site, qual, wanted):
+    """A callable that resolves to another routine of the package is a known other provenance only when that routine already existed
+    when the signatures were recorded (then its meaning is known to be a different one); a new name may be the same routine renamed."""
+    from ..specialise import load_signatures
+    if qual not in load_signatures():
+        raise AnalysisError(f"{site}: `{qual}` is used where {wanted.rsplit('.', 1)[1]} is expected; it is not a routine this check knows (unrecognised form)")
+
+
+def _foreign(p: Poly, params) -> bool:
+    """A completely read value that is built from the routine's own parameters and is not some view of an action space (a wrapper's
+    / the unwrapped environment's `action_space` may well be the same box): a known other provenance."""
+    from ..sem import ingredient_tokens
+    toks = ingredient_tokens(p)
+    return not _unread(p) and bool(toks & set(params)) and "action_space" not in toks
 
 
 def run(ck, repo: Repo, tier: str):
     nf = NF(repo, inline_depth=3)
     res = Resolver(repo)
-    SA, STA = "rl_blox.algorithm.ddpg.sample_actions", "rl_blox.algorithm.td3.sample_target_actions"
-    formula(ck, repo, nf, "R2-noise-law", SA, "jnp.clip(policy(obs) + exploration_noise * action_scale * jax.random.normal(key, policy(obs).shape), action_low, action_high)")
-    formula(ck, repo, nf, "R2-noise-law", STA, "jnp.clip(policy(obs) + jnp.clip(exploration_noise * action_scale * jax.random.normal(key, policy(obs).shape), -(action_scale * noise_clip), action_scale * noise_clip), action_low, action_high)")
+    _plain_guard = ck.guard
+
+    def _guard(f, *a, **kw):
+        """A rule group that trips over a shape of code it was not written for leaves the question undecided; it never crashes the run."""
+        try:
+            return _plain_guard(f, *a, **kw)
+        except (KeyError, IndexError, AttributeError, TypeError, ValueError, RecursionError) as e:
+            ck.incomplete.append(f"{getattr(f, '__name__', 'rule group')}: {type(e).__name__}: {str(e)[:120]} (unrecognised form)")
+            return None
+    _guard(formula, ck, repo, nf, "R2-noise-law", SA, SPEC_SA, roles={"low": 0, "high": 1, "pos": [2, 3]})
+    _guard(formula, ck, repo, nf, "R2-noise-law", STA, SPEC_STA, roles={"low": 0, "high": 1, "pos": [2, 3, 4]})
     def _section_1():
-        # clip domination: the outermost operation of the returned value
-        for q in (SA, STA):
+        # clip domination: the outermost operation of the returned value is clip(., low, high) with the first two parameters as bounds
+        for q, spec, roles in ((SA, SPEC_SA, {"low": 0, "high": 1, "pos": [2, 3]}), (STA, SPEC_STA, {"low": 0, "high": 1, "pos": [2, 3, 4]})):
             fn = repo.func(q)
-            got = nf.return_poly(q, _env(fn))
-            a = got.single_atom() or ""
-            m = nf.meta.get(a, {})
-            a3 = [x.canon() for x in m.get("args", [])]
-            ok = m.get("fn") == "clip" and len(a3) == 3 and a3[2] == "action_high" and "action_low" in a3[:2]
-            ck.ob("R1-clip-domination", q, "returns-clip(low,high)", ok, f"return {a[:120]}", "" if ok else "the returned action is not clip(., action_low, action_high): it can leave the action space", loc(fn._module, fn))
-    ck.guard(_section_1)
+            ps = param_names(fn)
+            ck.need(len(ps) >= 2, f"{q}: signature changed (anchor vanished)")
+            lo, hi = ps[0], ps[1]
+            sc1 = nf.scope_for(q, _env(fn))
+            rets = _value_returns(sc1.cfg)
+            ck.need(rets, f"{q}: no return of a value")
+            verdict, shown = True, []
+            for r_ in rets:
+                got = nf.poly(r_.ast.value, sc1, r_.id)     # every return statement, with the definitions that reach it
+                a = got.single_atom() or ""
+                m = nf.meta.get(a, {})
+                a3 = [x.canon() for x in m.get("args", [])]
+                ok = m.get("fn", "").split(".")[-1] == "clip" and len(a3) == 3 and not m.get("kws") and a3[2] == hi and lo in a3[:2]
+                if not ok:
+                    # evidence: the value is completely read and made of the documented quantities only (no clip, other bounds, swapped bounds)
+                    want = nf.poly(parse_expr(_fill(spec, fn, q)), Scope(None, fn._module, _env(fn), q), None)
+                    _evidence(nf, q, f"the returned value (not read as clip(., {lo}, {hi}))", got, [want], roles=_roles(fn, roles))
+                verdict = verdict and ok
+                shown.append((a or got.canon())[:120])
+            ck.ob("R1-clip-domination", q, "returns-clip(low,high)", verdict, "return " + " | return ".join(shown), "" if verdict else f"the returned action is not clip(., {lo}, {hi}): it can leave the action space", loc(fn._module, fn))
+    _guard(_section_1)
     def _section_2():
         # factories
-        for fq, target, extra in (("rl_blox.algorithm.ddpg.make_sample_actions", SA, ["exploration_noise"]), ("rl_blox.algorithm.td3.make_sample_target_actions", STA, ["exploration_noise", "noise_clip"])):
+        for fq, target, n_extra in ((MSA, SA, 1), (MSTA, STA, 2)):
             fn = repo.func(fq)
             mi = fn._module
             cfg = nf.cfg_of(fn)
-            rets = [n for n in cfg.nodes if n.kind == "stmt" and isinstance(n.ast, ast.Return)]
+            fps = param_names(fn)
+            ck.need(len(fps) >= 1 + n_extra, f"{fq}: signature changed (anchor vanished)")
+            space, extra = fps[0], fps[1:1 + n_extra]
+            rets = _value_returns(cfg)
+            if len(rets) != 1:
+                raise AnalysisError(f"{fq}: {len(rets)} return statements (unrecognised form)")
             t = res.resolve(rets[0].ast.value, mi, res.cfg_of(fn), res.cfg_of(fn).node_of(rets[0].ast).id)
-            ok = t is not None and t.qual == target
-            if t is None:
+            if t is None or not t.qual:
                 raise AnalysisError(f"{fq}: the returned sampler `{short(rets[0].ast.value, 60)}` cannot be resolved to a function (unrecognised form)")
-            ck.ob("R1-clip-domination", fq, "wraps-sampler", ok, f"returns {short(rets[0].ast.value, 60)}", "" if ok else f"factory must return a partial of {target.rsplit('.', 1)[1]}", loc(mi, fn))
+            ok = t.qual == target
+            if not ok:
+                _other_routine(fq, t.qual, target)
+            ck.ob("R1-clip-domination", fq, "wraps-sampler", ok, f"returns {short(rets[0].ast.value, 60)}", "" if ok else f"factory must return a partial of {target.rsplit('.', 1)[1]}, it returns {t.qual}", loc(mi, fn))
             if not ok:
                 continue
+            tfn, bound = _bound_by_signature(repo, t)
+            roles = positional_params(tfn)[:3 + n_extra]
+            missing = [p for p in roles if p not in bound]
+            if len(roles) < 3 + n_extra or missing:
+                raise AnalysisError(f"{fq}: the partial does not bind {missing or 'the leading parameters'} of {target.rsplit('.', 1)[1]} (unrecognised form)")
             sc = Scope(cfg, mi, _env(fn), fq)
-            got = [nf.poly(a, sc, rets[0].id).canon() for a in t.prefix]
-            want = [nf.poly(parse_expr(x), Scope(None, mi, _env(fn), fq), None).canon() for x in ["action_space.low", "action_space.high", "0.5 * (action_space.high - action_space.low)"] + extra]
+            got = [nf.poly(bound[p], sc, rets[0].id) for p in roles]
+            want = [nf.poly(parse_expr(x), Scope(None, mi, _env(fn), fq), None) for x in [f"{space}.low", f"{space}.high", f"0.5 * ({space}.high - {space}.low)"] + extra]
             ok = got == want
-            ck.ob("R1-clip-domination", fq, "bound-arguments", ok, f"partial({target.rsplit('.', 1)[1]}, {', '.join(got)[:140]})",
-                  "" if ok else f"must bind (low, high, 0.5*(high-low), {', '.join(extra)}) in this order: got {got}", loc(mi, rets[0].ast))
-    ck.guard(_section_2)
+            wit = ""
+            if not ok:
+                wits = [_evidence(nf, fq, f"the argument bound to {p}", g, [w], roles={"names": fps, "pos": list(extra)}, universe=want) for p, g, w in zip(roles, got, want) if g != w]
+                wit = next((x for x in wits if x), "")
+            shown = ", ".join(f"{p}={g.canon()}" for p, g in zip(roles, got))
+            ck.ob("R1-clip-domination", fq, "bound-arguments", ok, f"partial({target.rsplit('.', 1)[1]}, {shown[:170]})",
+                  "" if ok else f"must bind ({space}.low, {space}.high, 0.5*({space}.high-{space}.low), {', '.join(extra)}) to ({', '.join(roles)}): got {[g.canon() for g in got]}" + (f" ({wit})" if wit else ""), loc(mi, rets[0].ast))
+    _guard(_section_2)
+    def _step_arg(L, lq):
+        c = L.step_call
+        if c.args and not isinstance(c.args[0], ast.Starred):
+            return strip_wrappers(c.args[0])
+        if not c.args and len(c.keywords) == 1 and c.keywords[0].arg is not None:
+            return strip_wrappers(c.keywords[0].value)
+        raise AnalysisError(f"{lq}: env.step call `{short(c, 60)}` (unrecognised form)")
+
+    def _producer_root_is_param(L, cfg, func, at):
+        root_ = func
+        while isinstance(root_, (ast.Attribute, ast.Subscript)):
+            root_ = root_.value
+        return isinstance(root_, ast.Name) and root_.id in param_names(L.fn) and bool(cfg.defs_of(at, root_.id)) and all(x.kind == "param" for x in cfg.defs_of(at, root_.id))
+
+    def _sampler_space(L, lq, cfg, mi, scl, t, at_default):
+        """(ok, why) for a resolved sample_actions partial: are its bounds those of the loop's own env.action_space?"""
+        want_space = f"{L.env}.action_space"
+        fac = getattr(t, "factory", None)
+        if fac is not None:
+            if fac[0] != MSA:
+                raise AnalysisError(f"{lq}: sample_actions is specialised by `{fac[0]}`, whose binding of the bounds this check does not read (unrecognised form)")
+            ffn = repo.func(MSA)
+            b = bind_call(ffn, fac[1])
+            sp = param_names(ffn)[0] if param_names(ffn) else None
+            if sp is None or sp not in b or any(isinstance(x, ast.Starred) for x in fac[1].args) or any(k.arg is None for k in fac[1].keywords):
+                raise AnalysisError(f"{lq}: the action space argument of `{short(fac[1], 60)}` is not read (unrecognised form)")
+            at = _node_containing(cfg, fac[1])
+            if at is None:
+                raise AnalysisError(f"{lq}: `{short(fac[1], 60)}` is not evaluated in the training routine itself (unrecognised form)")
+            pv = nf.poly(b[sp], scl, at)
+            if pv.canon() == want_space:
+                return True, ""
+            if not _foreign(pv, param_names(L.fn)):
+                raise AnalysisError(f"{lq}: the sampler is built for `{pv.canon()[:60]}`, which is not read as a space (unrecognised form)")
+            return False, f"the sampler is built for `{pv.canon()[:60]}`, not for {want_space}"
+        # partial(sample_actions, low, high, scale, ...) written in the routine itself: the bounds are read here
+        tfn, bound = _bound_by_signature(repo, t)
+        roles = positional_params(tfn)[:3]
+        if len(roles) < 3 or any(p not in bound for p in roles):
+            raise AnalysisError(f"{lq}: sample_actions is used without its bounds being bound (unrecognised form)")
+        ats = [_node_containing(cfg, bound[p]) for p in roles]
+        if any(x is None for x in ats):
+            raise AnalysisError(f"{lq}: the bounds of sample_actions are not bound in the training routine itself (unrecognised form)")
+        got = [nf.poly(bound[p], scl, x) for p, x in zip(roles, ats)]
+        want = [nf.poly(parse_expr(x), Scope(None, mi, scl.env, lq), None) for x in (f"{want_space}.low", f"{want_space}.high", f"0.5 * ({want_space}.high - {want_space}.low)")]
+        if got == want:
+            return True, ""
+        for p, g, w in zip(roles, got, want):
+            if g != w:
+                _evidence(nf, lq, f"the argument bound to {p}", g, [w], roles={"names": param_names(L.fn)}, universe=want)
+        return False, f"sample_actions must be bound to ({want_space}.low, .high, half the range): got {[g.canon() for g in got]}"
+
     def _section_3():
         # loops: provenance of the env.step argument
         for lq in LOOPS:
             L = find_env_loop(repo, lq)
             cfg, mi = L.cfg, L.mi
-            arg = strip_wrappers(L.step_call.args[0])
+            arg = _step_arg(L, lq)
             ck.need(isinstance(arg, ast.Name), f"{lq}: env.step argument is not a variable")
             ds = cfg.defs_of(L.step_node, arg.id)
             ck.need(ds, f"{lq}: action has no definition")
+            scl = Scope(cfg, mi, {p: Poly.atom(p, {p}, {p}) for p in param_names(L.fn)}, lq)
             # follow value-preserving wrappers and single-definition locals to the producing call
             work, ds2, seen_d = list(ds), [], set()
             while work:
@@ -386,37 +812,35 @@ def run(ck, repo: Repo, tier: str):
             for d in ds2:
                 v = strip_wrappers(d.value) if d.value is not None else None
                 where = loc(mi, cfg.nodes[d.node].ast)
-                if isinstance(v, ast.Call) and dotted(v.func) == f"{L.env}.action_space.sample":
-                    ck.ob("R1-clip-domination", lq, "step-arg:space-sample", True, f"{arg.id} = {short(d.value, 60)}", "", where)
+                if d.kind != "assign" or not isinstance(v, ast.Call):
+                    raise AnalysisError(f"{lq}: the action passed to env.step is `{short(d.value, 50) if d.value is not None else d.kind}`, not the result of a call (unrecognised form)")
+                if isinstance(v.func, ast.Attribute) and v.func.attr == "sample" and not v.args and not v.keywords:
+                    rc = nf.poly(v.func.value, scl, d.node)
+                    if rc.canon() == f"{L.env}.action_space":
+                        ck.ob("R1-clip-domination", lq, "step-arg:space-sample", True, f"{arg.id} = {short(d.value, 60)}", "", where)
+                        continue
+                    if not _foreign(rc, param_names(L.fn)):
+                        raise AnalysisError(f"{lq}: the receiver `{rc.canon()[:60]}` of `{short(v, 50)}` is not read as a space (unrecognised form)")
+                    ck.ob("R1-clip-domination", lq, "step-arg:space-sample", False, f"{arg.id} = {short(d.value, 60)}", f"the warm-up action is sampled from `{rc.canon()[:60]}`, not from {L.env}.action_space", where)
                     continue
-                ok, why = False, "the action passed to env.step is neither the seeded space sample nor the clipped sampler's result"
-                if isinstance(v, ast.Call):
-                    t = res.resolve(v.func, mi, cfg, d.node)
-                    if t is None or not getattr(t, "qual", None):
-                        # an unresolved producer is evidence only when it is one of the routine's own parameters (the raw policy network)
-                        root_ = v.func
-                        while isinstance(root_, ast.Attribute):
-                            root_ = root_.value
-                        is_param = isinstance(root_, ast.Name) and root_.id in param_names(L.fn) and all(x.kind == "param" for x in cfg.defs_of(d.node, root_.id))
-                        if not is_param:
-                            raise AnalysisError(f"{lq}: the producer `{short(v.func, 40)}` of the action passed to env.step cannot be resolved (unrecognised form)")
-                        why = f"the action passed to env.step is the output of `{short(v.func, 30)}` itself: it does not go through the clipped sampler"
-                    if t is not None and t.qual == SA:
-                        fac = getattr(t, "factory", None)
-                        if fac is not None and fac[0] == "rl_blox.algorithm.ddpg.make_sample_actions":
-                            a0 = fac[1].args[0] if fac[1].args else None
-                            ok = a0 is not None and ast.unparse(a0) == f"{L.env}.action_space"
-                            why = "" if ok else f"the sampler is built for `{ast.unparse(a0) if a0 is not None else None}`, not for {L.env}.action_space"
-                        else:
-                            why = "sample_actions is not bound through make_sample_actions(env.action_space, ...)"
+                t = res.resolve(v.func, mi, cfg, d.node)
+                if t is None or not getattr(t, "qual", None):
+                    # an unresolved producer is evidence only when it is one of the routine's own parameters (the raw policy network)
+                    if not _producer_root_is_param(L, cfg, v.func, d.node):
+                        raise AnalysisError(f"{lq}: the producer `{short(v.func, 40)}` of the action passed to env.step cannot be resolved (unrecognised form)")
+                    ok, why = False, f"the action passed to env.step is the output of `{short(v.func, 30)}` itself: it does not go through the clipped sampler"
+                elif t.qual == SA:
+                    ok, why = _sampler_space(L, lq, cfg, mi, scl, t, d.node)
+                else:
+                    raise AnalysisError(f"{lq}: the action passed to env.step is produced by `{t.qual}`, which this check does not follow (unrecognised form)")
                 ck.ob("R1-clip-domination", lq, "step-arg:clipped-sampler", ok, f"{arg.id} = {short(d.value, 70)}", why, where)
             # no redefinition of the action between sampler and step is implied by reaching definitions
         ck.floor("continuous-loops", len(LOOPS), 5)
-    ck.guard(_section_3)
+    _guard(_section_3)
     def _section_4():
         # PETS loop
         L = find_env_loop(repo, "rl_blox.algorithm.pets.train_pets")
-        arg = strip_wrappers(L.step_call.args[0])
+        arg = _step_arg(L, L.qual)
         def _leaves(e, at, depth=0):
             e = strip_wrappers(e)
             if depth > 8:
@@ -433,185 +857,310 @@ def run(ck, repo: Repo, tier: str):
                         out_.append((e, at))
                 return out_
             return [(e, at)]
-        scp = Scope(L.cfg, L.mi, {"env": Poly.atom("env")}, L.qual)
+        scp = Scope(L.cfg, L.mi, {p: Poly.atom(p, {p}, {p}) for p in param_names(L.fn)}, L.qual)
         for e_, at_ in _leaves(arg, L.step_node):
-            ok = False
-            if isinstance(e_, ast.Call) and isinstance(e_.func, ast.Attribute) and e_.func.attr == "sample" and not e_.args:
-                ok = nf.poly(e_.func.value, scp, at_).canon() in (f"{L.env}.action_space", "env.action_space")
-            elif isinstance(e_, ast.Call):
+            if not isinstance(e_, ast.Call):
+                raise AnalysisError(f"{L.qual}: the action passed to env.step is `{short(e_, 50)}`, not the result of a call (unrecognised form)")
+            why = "PETS must execute the space sample (warm-up) or the planner's action"
+            if isinstance(e_.func, ast.Attribute) and e_.func.attr == "sample" and not e_.args and not e_.keywords:
+                rc = nf.poly(e_.func.value, scp, at_)
+                ok = rc.canon() == f"{L.env}.action_space"
+                if not ok and not _foreign(rc, param_names(L.fn)):
+                    raise AnalysisError(f"{L.qual}: the receiver `{rc.canon()[:60]}` of `{short(e_, 50)}` is not read as a space (unrecognised form)")
+                why = f"the warm-up action is sampled from `{rc.canon()[:60]}`, not from {L.env}.action_space"
+            else:
                 t_ = res.resolve(e_.func, L.mi, L.cfg, at_)
-                ok = t_ is not None and t_.qual == "rl_blox.algorithm.pets.mpc_action"
-            ck.ob("R5-planning-chain", L.qual, "step-arg", ok, f"{arg.id} <- {short(e_, 70)}", "" if ok else "PETS must execute the space sample (warm-up) or the planner's action", loc(L.mi, e_))
-    ck.guard(_section_4)
+                if t_ is None or not t_.qual:
+                    if not _producer_root_is_param(L, L.cfg, e_.func, at_):
+                        raise AnalysisError(f"{L.qual}: the producer `{short(e_.func, 40)}` of the action passed to env.step cannot be resolved (unrecognised form)")
+                    ok, why = False, f"the action passed to env.step is the output of `{short(e_.func, 30)}` itself, not the planner's action"
+                else:
+                    ok = t_.qual == "rl_blox.algorithm.pets.mpc_action"     # a resolved other (recorded) routine of the package: known other provenance
+                    if not ok:
+                        _other_routine(L.qual, t_.qual, "rl_blox.algorithm.pets.mpc_action")
+            ck.ob("R5-planning-chain", L.qual, "step-arg", ok, f"{arg.id} <- {short(e_, 70)}", "" if ok else why, loc(L.mi, e_))
+    _guard(_section_4)
+
+    def _init_stores(cq):
+        """(owner, __init__, receiver name, [attribute stores at the end of each path of __init__]) - the constructor is looked up through
+        the base classes and evaluated path by path, so annotated / unpacking assignments and values passed through locals are read."""
+        from ..sympath import enumerate_paths, PathEval
+        owner, init = _method(ck, repo, cq, "__init__")
+        ps = param_names(init)
+        ck.need(len(ps) >= 1, f"{cq}.__init__: no receiver parameter")
+        icfg = nf.cfg_of(init)
+        env = {p: Poly.atom(p, {p}, {p}) for p in ps}
+        stores = []
+        for pth in enumerate_paths(icfg, icfg.entry, {icfg.exit}):
+            stores.append(dict(PathEval(nf, icfg, init._module, f"{cq}.__init__", env, self_class=owner).run(pth).store))
+        ck.need(stores, f"{cq}.__init__: no path reaches the end (unrecognised form)")
+        return owner, init, ps, stores
 
     def _section_5():
         # R3 tanh heads
         PH = "rl_blox.blox.function_approximator.policy_head."
-        formula(ck, repo, nf, "R3-tanh-head", "scale_output", "nnx.tanh(y) * jnp.broadcast_to(self.action_scale.value, y.shape) + jnp.broadcast_to(self.action_bias.value, y.shape)", self_class=PH + "DeterministicTanhPolicy")
-        formula(ck, repo, nf, "R3-tanh-head", "__call__", "nnx.tanh(self.policy_net(observation)) * jnp.broadcast_to(self.action_scale.value, self.policy_net(observation).shape) + jnp.broadcast_to(self.action_bias.value, self.policy_net(observation).shape)", key="call-applies-scaling", self_class=PH + "DeterministicTanhPolicy")
+        acc = ("{0}.action_scale.value", "{0}.action_bias.value"), ("{0}.action_scale[...]", "{0}.action_bias[...]")     # two spellings of reading a Variable
+        so = "nnx.tanh({y}) * jnp.broadcast_to({s}, {y}.shape) + jnp.broadcast_to({b}, {y}.shape)"
+        so2 = "nnx.tanh({y}) * {s} + {b}"       # the same value: scale and bias broadcast against y by the arithmetic itself
+        def _alts(y):
+            return tuple(f_.format(y=y, s=a_[0], b=a_[1]) for f_ in (so, so2) for a_ in acc)[1:]
+        formula(ck, repo, nf, "R3-tanh-head", "scale_output", so.format(y="{1}", s=acc[0][0], b=acc[0][1]), self_class=PH + "DeterministicTanhPolicy", alts=_alts("{1}"))
+        net = "{0}.policy_net({1})"
+        formula(ck, repo, nf, "R3-tanh-head", "__call__", so.format(y=net, s=acc[0][0], b=acc[0][1]), key="call-applies-scaling", self_class=PH + "DeterministicTanhPolicy", alts=_alts(net))
         for cq in (PH + "DeterministicTanhPolicy", PH + "GaussianTanhPolicy"):
-            init = repo.method(cq, "__init__", inherited=False)[1]
-            mi = repo.cls(cq)._module
-            vals = {}
-            init._module = mi
-            icfg = nf.cfg_of(init)
-            for n_ in icfg.nodes:
-                n = n_.ast
-                if n_.kind == "stmt" and isinstance(n, ast.Assign) and isinstance(n.targets[0], ast.Attribute) and (dotted(n.targets[0]) or "").startswith("self.action_"):
-                    vals[n.targets[0].attr] = (n.value, n_.id)
-            sc = Scope(icfg, mi, {"action_space": Poly.atom("action_space")}, cq)
-            for attr, spec in (("action_scale", "nnx.Variable(jnp.array((action_space.high - action_space.low) / 2.0))"), ("action_bias", "nnx.Variable(jnp.array((action_space.high + action_space.low) / 2.0))")):
-                got = nf.poly(vals[attr][0], sc, vals[attr][1]) if attr in vals else None
-                want = nf.poly(parse_expr(spec), Scope(None, mi, {"action_space": Poly.atom("action_space")}, cq), None)
-                ok = got is not None and got == want
-                ck.ob("R3-tanh-head", f"{cq}.__init__", attr, ok, f"{attr} = {got.canon()[:100] if got is not None else None}", "" if ok else f"must be {want.canon()}: otherwise tanh(y)*scale+bias leaves [low, high]", loc(mi, init))
-    ck.guard(_section_5)
+            owner, init, ps, stores = _init_stores(cq)
+            mi = init._module
+            ck.need(len(ps) >= 3, f"{cq}.__init__: signature changed (anchor vanished)")
+            me, space = ps[0], ps[2]
+            for attr, sign in (("action_scale", "-"), ("action_bias", "+")):
+                want = nf.poly(parse_expr(f"nnx.Variable(jnp.array(({space}.high {sign} {space}.low) / 2.0))"), Scope(None, mi, {space: Poly.atom(space, {space}, {space})}, cq), None)
+                gots = [st.get(f"{me}.{attr}") for st in stores]
+                if any(g is None for g in gots):
+                    raise AnalysisError(f"{cq}.__init__: no assignment to {me}.{attr} is read on some path (set elsewhere / by a base constructor: unrecognised form)")
+                for i_, got in enumerate(sorted(set(gots), key=lambda p: p.canon())):
+                    # nnx.Param instead of nnx.Variable is a known other provenance: the optimiser then trains the scaling constants
+                    _decide(ck, nf, "R3-tanh-head", f"{cq}.__init__", attr if i_ == 0 else f"{attr}:{i_ + 1}", got, want, f"{attr} = {got.canon()[:100]}", f"must be {want.canon()}: otherwise tanh(y)*scale+bias leaves [low, high]", loc(mi, init), extra=("Param",))
+    _guard(_section_5)
     def _section_6():
-        # wrappers that reach the tanh head
-        for cq, meth, spec in (("rl_blox.blox.embedding.sale.ActorSALE", "__call__", None), ("rl_blox.blox.embedding.model_based_encoder.DeterministicPolicyWithEncoder", "__call__", "self.policy(self.encoder.encode_zs(observation))")):
-            m = repo.method(cq, meth, inherited=False)
-            ck.need(m is not None, f"{cq}.{meth} not found")
-            rets = [n for n in ast.walk(m[1]) if isinstance(n, ast.Return)]
-            txt = ast.unparse(rets[0].value)
-            ok = txt.startswith("self.policy_net(") if spec is None else txt == spec
-            ck.ob("R3-tanh-head", f"{cq}.{meth}", "ends-in-tanh-policy", ok, f"return {txt}", "" if ok else "the action must be the output of the wrapped tanh policy (nothing applied after the scaling)", loc(repo.cls(cq)._module, m[1]))
-    ck.guard(_section_6)
+        # wrappers that reach the tanh head: __call__ returns the output of the wrapped policy (the module given to the constructor at
+        # the recorded position), nothing is applied after it
+        for cq, meth, pos in (("rl_blox.blox.embedding.sale.ActorSALE", "__call__", 1), ("rl_blox.blox.embedding.model_based_encoder.DeterministicPolicyWithEncoder", "__call__", 2)):
+            owner_i, init, ips, stores = _init_stores(cq)
+            ck.need(len(ips) > pos, f"{cq}.__init__: signature changed (anchor vanished)")
+            held = set()
+            for st in stores:
+                held.add(tuple(sorted(k for k, v in st.items() if v.single_atom() == ips[pos] and k.split(".")[0] == ips[0] and k.count(".") == 1)))
+            if len(held) != 1 or len(next(iter(held))) != 1:
+                raise AnalysisError(f"{cq}.__init__: the attribute holding the wrapped policy `{ips[pos]}` is not read (unrecognised form)")
+            attr = next(iter(held))[0].split(".", 1)[1]
+            owner, fn = _method(ck, repo, cq, meth)
+            ps = param_names(fn)
+            ck.need(len(ps) >= 1, f"{cq}.{meth}: no receiver parameter")
+            cfg = nf.cfg_of(fn)
+            sc = Scope(cfg, fn._module, {p: Poly.atom(p, {p}, {p}) for p in ps[1:]}, f"{cq}.{meth}", self_class=cq)
+            rets = _value_returns(cfg)
+            if len(rets) != 1:
+                raise AnalysisError(f"{cq}.{meth}: {len(rets)} return statements (unrecognised form)")
+            got = nf.poly(rets[0].ast.value, sc, rets[0].id)
+            callee = f"{ps[0]}.{attr}"
+            a = got.single_atom()
+            ok = a is not None and nf.meta.get(a, {}).get("fn") == callee
+            if not ok:
+                # evidence: the output of the wrapped policy occurs in the returned value, but something is applied to it
+                inner = [x for x in got.atoms() if nf.meta.get(x, {}).get("fn") == callee]
+                if _unread(got) or not inner or a is not None:
+                    raise AnalysisError(f"{cq}.{meth}: returns `{got.canon()[:100]}`, not read as the output of {callee} (unrecognised form)")
+            ck.ob("R3-tanh-head", f"{cq}.{meth}", "ends-in-tanh-policy", ok, f"return {got.canon()[:110]}", "" if ok else f"the action must be the output of the wrapped tanh policy {callee} (nothing applied after the scaling)", loc(fn._module, fn))
+    _guard(_section_6)
 
+    CS, CU = "rl_blox.blox.cross_entropy_method.cem_sample", "rl_blox.blox.cross_entropy_method.cem_update"
     def _section_7():
         # R4 CEM proposal: every candidate lies in [lb, ub]
-        CS = "rl_blox.blox.cross_entropy_method.cem_sample"
         _cem_sample(ck, repo, nf, CS)
-        CU = "rl_blox.blox.cross_entropy_method.cem_update"
+    _guard(_section_7)
+    def _section_7b():
+        # cem_update(samples, fitness, mean, var, n_elite, alpha): roles by position
         fn = repo.func(CU)
-        got = nf.return_poly(CU, _env(fn))
+        ps = param_names(fn)
+        ck.need(len(ps) >= 6, f"{CU}: signature changed (anchor vanished)")
+        SAMPLES, MEAN, ALPHA = ps[0], ps[2], ps[5]
+        try:
+            got = nf.return_poly(CU, _env(fn))
+        except ValueError as e:
+            raise AnalysisError(f"{CU}: {e} (unrecognised form)")
         ck.need(got.elems is not None and len(got.elems) == 2, f"{CU}: must return (mean, var)")
         m1 = got.elems[0]
-        avg = sorted(a for a in m1.atoms() if a.startswith("mean(") and "samples" in a)
-        others = sorted(a for a in m1.atoms() if a not in avg and a not in ("alpha", "mean"))
-        if len(avg) != 1 or others:
+        avg = sorted(a for a in m1.atoms() if _short_fn(nf, a) == "mean" and SAMPLES in nf.atom_deps(a))
+        others = sorted(a for a in m1.atoms() if a not in avg and a not in (ALPHA, MEAN))
+        if len(avg) != 1 or others or _unread(m1):
             raise AnalysisError(f"{CU}: new mean `{m1.canon()[:120]}` is not a combination of the old mean and one average of candidates (convexity not decidable here)")
         # affine weights: set the old mean and the average to 1 -> the weights must add up to exactly 1; each weight must be alpha resp. 1 - alpha
-        from fractions import Fraction
-        wsum = Poly({})
-        w = {"mean": Poly({}), avg[0]: Poly({})}
+        w = {MEAN: Poly({}), avg[0]: Poly({})}
         for mono, c in m1.terms.items():
             rest = tuple((a, e) for a, e in mono if a not in w)
             hit = [a for a, e in mono if a in w]
             if len(hit) != 1 or any(e != 1 for a, e in mono if a in w):
                 raise AnalysisError(f"{CU}: new mean is not affine in (old mean, candidate average): `{m1.canon()[:120]}`")
             w[hit[0]] = w[hit[0]] + Poly({rest: c})
-        al = Poly.atom("alpha", {"alpha"}, {"alpha"})
-        ok = (w["mean"] - al).is_zero() and (w[avg[0]] - (Poly.const(1) - al)).is_zero()
-        ck.ob("R5-planning-chain", CU, "convex-mean", ok, f"mean' = ({w['mean'].canon()})*mean + ({w[avg[0]].canon()})*{avg[0][:60]}",
-              "" if ok else "the weights of the old mean and of the candidate average must be alpha and 1 - alpha (non-negative, summing to one): otherwise the new mean can leave the box spanned by in-bounds candidates", loc(fn._module, fn))
+        al = Poly.atom(ALPHA, {ALPHA}, {ALPHA})
+        ok = (w[MEAN] - al).is_zero() and (w[avg[0]] - (Poly.const(1) - al)).is_zero()
+        ck.ob("R5-planning-chain", CU, "convex-mean", ok, f"mean' = ({w[MEAN].canon()})*{MEAN} + ({w[avg[0]].canon()})*{avg[0][:60]}",
+              "" if ok else f"the weights of the old mean and of the candidate average must be {ALPHA} and 1 - {ALPHA} (non-negative, summing to one): otherwise the new mean can leave the box spanned by in-bounds candidates", loc(fn._module, fn))
+    _guard(_section_7b)
+    def _section_7c():
         # R5 PETS chain
         q = "rl_blox.algorithm.pets._init_mpc_optimizer_cem"
         fn = repo.func(q)
         mi = fn._module
         cfg = nf.cfg_of(fn)
+        fps = param_names(fn)
+        ck.need(len(fps) >= 5, f"{q}: signature changed (anchor vanished)")
+        SPACE, F_ALPHA = fps[0], fps[4]
         sc = Scope(cfg, mi, _env(fn), q)
-        rets = [n for n in cfg.nodes if n.kind == "stmt" and isinstance(n.ast, ast.Return)]
+        rets = _value_returns(cfg)
+        if len(rets) != 1:
+            raise AnalysisError(f"{q}: {len(rets)} return statements (unrecognised form)")
         rv = rets[0].ast.value
         ck.need(isinstance(rv, ast.Tuple) and len(rv.elts) == 2, f"{q}: must return (sample_fn, update_fn)")
         rcfg = res.cfg_of(fn)
         at = rcfg.node_of(rets[0].ast).id
         ts, tu = res.resolve(rv.elts[0], mi, rcfg, at), res.resolve(rv.elts[1], mi, rcfg, at)
-        ok = ts is not None and ts.qual == CS and tu is not None and tu.qual == CU
         if ts is None or tu is None or not ts.qual or not tu.qual or "<locals>" in ts.qual or "<locals>" in tu.qual:
             raise AnalysisError(f"{q}: the returned planner functions `{short(rv, 60)}` cannot be resolved (unrecognised form)")
-        ck.ob("R5-planning-chain", q, "sample/update-functions", ok, f"({ts.qual if ts else None}, {tu.qual if tu else None})", "" if ok else "PETS must plan with cem_sample / cem_update", loc(mi, fn))
+        ok = ts.qual == CS and tu.qual == CU
+        for got_, want_ in ((ts.qual, CS), (tu.qual, CU)):
+            if got_ != want_:
+                _other_routine(q, got_, want_)
+        ck.ob("R5-planning-chain", q, "sample/update-functions", ok, f"({ts.qual}, {tu.qual})", "" if ok else "PETS must plan with cem_sample / cem_update", loc(mi, fn))
         if ok:
-            kws = {k: nf.poly(v, sc, rets[0].id).canon() for k, v in ts.kwargs.items()}
-            lbp, ubp = ts.kwargs.get("lb"), ts.kwargs.get("ub")
+            sfn, sbound = _bound_by_signature(repo, ts)
+            sps = param_names(sfn)
+            ck.need(len(sps) >= 6, f"{CS}: signature changed (anchor vanished)")
+            LB, UB = sps[4], sps[5]
+            lbp, ubp = sbound.get(LB), sbound.get(UB)
             if lbp is None or ubp is None:
-                raise AnalysisError(f"{q}: lb / ub are not bound by keyword when the CEM sampler is specialised (unrecognised form)")
+                raise AnalysisError(f"{q}: {LB} / {UB} are not bound when the CEM sampler is specialised (unrecognised form)")
             rows = {}
-            for nm_, e_ in (("lb", lbp), ("ub", ubp)):
+            for nm_, e_ in ((LB, lbp), (UB, ubp)):
                 pv = nf.poly(e_, sc, rets[0].id)
                 r_ = _stacked_rows(nf, pv, sc)
                 if r_ is None:
                     raise AnalysisError(f"{q}: bounds handed to the CEM sampler (`{nm_} = {pv.canon()[:80]}`) are built in a way this check does not follow")
                 rows[nm_] = r_ + (pv.canon(),)
-            lo_, hi_ = nf.poly(parse_expr("action_space.low"), sc, rets[0].id).canon(), nf.poly(parse_expr("action_space.high"), sc, rets[0].id).canon()
-            for nm_, want_ in (("lb", lo_), ("ub", hi_)):
+            lo_, hi_ = nf.poly(parse_expr(f"{SPACE}.low"), sc, rets[0].id).canon(), nf.poly(parse_expr(f"{SPACE}.high"), sc, rets[0].id).canon()
+            for nm_, want_ in ((LB, lo_), (UB, hi_)):
                 kind_, base_, cnt_, txt_ = rows[nm_]
                 if base_ not in (lo_, hi_):
                     raise AnalysisError(f"{q}: `{nm_} = {txt_[:80]}` is not built from the action space bounds (unrecognised form)")
                 okb = kind_ == "tiled" and base_ == want_
-                ck.ob("R5-planning-chain", q, f"bounds-from-action-space:{nm_}", okb, f"{nm_} = {txt_[:80]}  ({kind_} copies of {base_})",
+                ck.ob("R5-planning-chain", q, f"bounds-from-action-space:{'lb' if nm_ == LB else 'ub'}", okb, f"{nm_} = {txt_[:80]}  ({kind_} copies of {base_})",
                       "" if okb else ("lb / ub must be action_space.low / .high stacked over the horizon (not swapped)" if base_ != want_ else
                                       f"`{txt_[:70]}` repeats every *component* of the bound {cnt_} times and then cuts rows: with more than one action dimension row t does not hold the bound of every dimension, so candidates of early plan steps are clipped with the wrong dimension's bound"), loc(mi, fn))
-            ukw = {k: nf.poly(v, sc, rets[0].id).canon() for k, v in tu.kwargs.items()}
-            oka = set(ukw) == {"n_elite", "alpha"} and ukw["alpha"] == "alpha"
-            ck.ob("R5-planning-chain", q, "update-arguments", oka, f"{ukw}", "" if oka else "cem_update must receive n_elite and alpha", loc(mi, fn))
-    ck.guard(_section_7)
+            # the smoothing weight handed to cem_update: the factory's own alpha (a weight in [0, 1] by its contract) or a constant in [0, 1]
+            ufn, ubound = _bound_by_signature(repo, tu)
+            ups = param_names(ufn)
+            ck.need(len(ups) >= 6, f"{CU}: signature changed (anchor vanished)")
+            if ups[5] not in ubound:
+                raise AnalysisError(f"{q}: {ups[5]} is not bound when cem_update is specialised (unrecognised form)")
+            av = nf.poly(ubound[ups[5]], sc, rets[0].id)
+            oka = av == Poly.atom(F_ALPHA, {F_ALPHA}, {F_ALPHA}) or (av.is_const() and 0 <= av.const_value() <= 1)
+            if not oka and not av.is_const():
+                raise AnalysisError(f"{q}: cem_update receives {ups[5]} = `{av.canon()[:60]}` (unrecognised form)")
+            ck.ob("R5-planning-chain", q, "update-arguments", oka, f"{ups[5]} = {av.canon()[:60]}", "" if oka else f"cem_update must receive a weight in [0, 1] (the factory's {F_ALPHA}): with {av.canon()} the update is not a convex combination", loc(mi, fn))
+    _guard(_section_7c)
+    FIRST_ROW = ("[0]", "[0, :]", "[0, ...]", "[0, Ellipsis]")
+
+    def _row_of_call(nfx, p: Poly, callee: str):
+        """(call atom, index text) when ``p`` is `callee(...)[index]`, else None."""
+        a_ = p.single_atom()
+        m_ = nfx.meta.get(a_ or "", {})
+        if m_.get("fn") not in ("proj", "subscript") or not m_.get("args"):
+            return None
+        ba = m_["args"][0].single_atom()
+        if not ba or nfx.meta.get(ba, {}).get("fn") != callee or not a_.startswith(ba):
+            return None
+        return ba, a_[len(ba):]
+
     def _section_8():
-        # mpc_action
+        # mpc_action(config, state, optimize_fn, obs): roles by position
+        import re
         q = "rl_blox.algorithm.pets.mpc_action"
         fn = repo.func(q)
         mi = fn._module
         from ..sympath import enumerate_paths, PathEval
+        ps = param_names(fn)
+        ck.need(len(ps) >= 4, f"{q}: signature changed (anchor vanished)")
+        CONFIG, STATE, OPT = ps[0], ps[1], ps[2]
         cfgm = nf.cfg_of(fn)
-        retn = [n for n in cfgm.nodes if n.kind == "stmt" and isinstance(n.ast, ast.Return)]
-        ck.need(len(retn) == 1, f"{q}: expected one return")
+        retn = _value_returns(cfgm)
+        if len(retn) != 1:
+            raise AnalysisError(f"{q}: {len(retn)} return statements (unrecognised form)")
         nfm = NF(repo, inline_depth=1, inline_calls=False)
         envm = _env(fn)
-        sigs = set()
+        outcomes = {}
         for pth in enumerate_paths(cfgm, cfgm.entry, {retn[0].id}):
             pe = PathEval(nfm, cfgm, mi, q, envm).run(pth[:-1])
             rvp = pe.ev(retn[0].ast.value)
-            rv = rvp.canon() if rvp.single_atom() is not None else "<compound> " + rvp.canon()
-            prev = pe.store.get("state.prev_plan")
-            sigs.add((rv, prev.canon() if prev is not None else None))
-        oks, okp = True, True
-        init_forms = set()
-        for rv, prev in sigs:
+            prev = pe.store.get(f"{STATE}.prev_plan")
+            outcomes[(rvp.canon(), prev.canon() if prev is not None else None)] = (rvp, prev)
+        ck.need(outcomes, f"{q}: no path reaches the return (unrecognised form)")
+        oks, plans = True, []
+        for rvp, prev in outcomes.values():
             # returned action: first step of the optimiser's result
-            if not (rv.startswith("optimize_fn(") and rv.endswith(")[0]")):
-                oks = False
+            r = _row_of_call(nfm, rvp, OPT)
+            if r is not None and r[1] in FIRST_ROW:
+                plans.append((r[0], prev))
                 continue
-            a = nfm.meta.get(rv[:-3], {})
-            init = a["args"][1].canon() if len(a.get("args", [])) > 1 else "?"
-            init_forms.add(init)
-            want_prev = f"concatenate(({rv[:-3]}[1:], config.avg_act[jax.numpy.newaxis]), axis=0)"
-            if prev != want_prev:
-                okp = False
-        ck.ob("R5-planning-chain", q, "returns-first-plan-step", oks, f"return {sorted(s_[0][:60] for s_ in sigs)}", "" if oks else "the executed action must be the first step of the optimised plan", loc(mi, fn))
-        good_init = {"state.prev_plan", "broadcast_to(config.avg_act, state.prev_plan.shape)"}
-        if not oks:
-            return_only = True
-        oki = init_forms <= good_init and (len(init_forms) >= 1 or not oks)
-        if oks and not oki and not any("avg_act" in f or "prev_plan" in f for f in init_forms):
-            raise AnalysisError(f"{q}: initial plan `{sorted(init_forms)}` not recognised")
-        if oks and not okp and any(p_ is not None and "concatenate" not in p_ for _, p_ in sigs):
-            raise AnalysisError(f"{q}: stored plan `{[p_ for _, p_ in sigs][:1]}` not recognised")
+            if r is not None and not re.fullmatch(r"\[-?\d+\]", r[1]):
+                raise AnalysisError(f"{q}: returns `{rvp.canon()[:80]}`: the index `{r[1]}` is not read (unrecognised form)")
+            if r is None:
+                # evidence: a completely read combination of rows of the optimiser's result and nothing else
+                rows = [_row_of_call(nfm, Poly.atom(x), OPT) for x in rvp.atoms()]
+                if _unread(rvp) or not rows or any(x is None for x in rows):
+                    raise AnalysisError(f"{q}: returns `{rvp.canon()[:80]}`, not read as a step of the optimised plan (unrecognised form)")
+            oks = False
+        ck.ob("R5-planning-chain", q, "returns-first-plan-step", oks, f"return {sorted(k[0][:60] for k in outcomes)}", "" if oks else "the executed action must be the first step of the optimised plan", loc(mi, fn))
         if oks:
-          ck.ob("R5-planning-chain", q, "plan-shift-and-padding", oki and okp, f"initial plan {sorted(init_forms)}; prev_plan' = shifted result padded with avg_act: {okp}", "" if oki and okp else "initial plan and padding must be the in-box mid-point avg_act, the plan the optimiser's result", loc(mi, fn))
+            sc0 = Scope(None, mi, envm, q)
+            good_init = [nfm.poly(parse_expr(x), sc0, None) for x in (f"{STATE}.prev_plan", f"jnp.broadcast_to({CONFIG}.avg_act, {STATE}.prev_plan.shape)")]
+            inits, oki, okp = [], True, True
+            for call_atom, prev in plans:
+                cm = nfm.meta.get(call_atom, {})
+                if len(cm.get("args", [])) < 2:
+                    raise AnalysisError(f"{q}: the initial plan is not the second positional argument of `{call_atom[:60]}` (unrecognised form)")
+                init = cm["args"][1]
+                inits.append(init.canon())
+                if not any(init == g for g in good_init):
+                    _evidence(nfm, q, "the initial plan", init, good_init, roles={"names": ps})
+                    oki = False
+                if prev is None:
+                    raise AnalysisError(f"{q}: no assignment to {STATE}.prev_plan is read on a path (unrecognised form)")
+                env2 = dict(envm)
+                env2["plan__"] = Poly.atom(call_atom, nfm.meta[call_atom].get("deps", frozenset()), nfm.meta[call_atom].get("gdeps", frozenset()))
+                sc2 = Scope(None, mi, env2, q)
+                want_prev = [nfm.poly(parse_expr(f"jnp.concatenate((plan__[1:], {CONFIG}.avg_act[{nx}]){ax})"), sc2, None) for nx in ("jnp.newaxis", "None", "None, :", "jnp.newaxis, :") for ax in (", axis=0", "", ", 0")]
+                if not any(prev == w_ for w_ in want_prev):
+                    _evidence(nfm, q, "the stored plan", prev, want_prev, roles={"names": ps})
+                    okp = False
+            ck.ob("R5-planning-chain", q, "plan-shift-and-padding", oki and okp, f"initial plan {sorted(set(inits))}; prev_plan' = shifted result padded with avg_act: {okp}", "" if oki and okp else "initial plan and padding must be the in-box mid-point avg_act, the plan the optimiser's result", loc(mi, fn))
         q = "rl_blox.algorithm.pets._pets_optimize"
         fn = repo.func(q)
         # what the optimiser returns, evaluated along the paths of its body (iteration helper inlined): after at least one iteration it
-        # must be component 0 of `config.update_fn(...)` - the mean of (cem_update's) (mean, var) - whatever the locals are called
+        # must be component 0 of `config.update_fn(...)` - the mean of (cem_update's) (mean, var) - whatever the locals are called; the
+        # candidates handed to update_fn must be the result of `config.sample_fn(...)`
         from ..sympath import enumerate_paths as _ep, PathEval as _PE
         nfo = NF(repo, inline_depth=2)
         cfg = nfo.cfg_of(fn)
-        rets = [n for n in cfg.nodes if n.kind == "stmt" and isinstance(n.ast, ast.Return)]
-        ck.need(len(rets) == 1 and rets[0].ast.value is not None, f"{q}: expected one return of a value")
+        ps = param_names(fn)
+        ck.need(len(ps) >= 5, f"{q}: signature changed (anchor vanished)")
+        CONFIG = ps[0]
+        rets = _value_returns(cfg)
+        if len(rets) != 1:
+            raise AnalysisError(f"{q}: {len(rets)} return statements (unrecognised form)")
         envo = _env(fn)
-        kinds = set()
-        shown = ""
+        kinds, cand_kinds = set(), set()
+        shown, shown_c = "", ""
+        doc = nfo.poly(parse_expr("{0}.update_fn({0}.sample_fn({2}, {0}.init_var, {3}), {0}.reward_model({4}), {2}, {0}.init_var)[0]".format(*ps)), Scope(None, fn._module, envo, q), None)
         for pth in _ep(cfg, cfg.entry, {rets[0].id}):
             if not any(cfg.nodes[n_].kind == "for" and lab_ is True for n_, lab_ in pth):
                 continue      # zero iterations: the initial mean is returned
             v = _PE(nfo, cfg, fn._module, q, envo).run(pth[:-1]).ev(rets[0].ast.value)
-            a_ = v.single_atom() or ""
-            m_ = nfo.meta.get(a_, {})
-            base = m_.get("args", [None])[0] if m_.get("fn") == "proj" and m_.get("args") else None
-            bm = nfo.meta.get(base.single_atom() or "", {}) if base is not None else {}
             shown = v.canon()[:90]
-            if base is not None and bm.get("fn", "").endswith("update_fn") and a_.endswith("]"):
-                kinds.add("mean" if a_.endswith("[0]") else "other-component")
-            elif "φ(" in v.canon() or not same_ingredients(v, nfo.poly(parse_expr("config.update_fn(config.sample_fn(mean, config.init_var, key), config.reward_model(obs), mean, config.init_var)[0]"), Scope(None, fn._module, envo, q), None),
-                                                            ("split", "dynamics_model", "randint", "n_particles", "n_ensemble", "n_samples", "plan_horizon", "where", "argmax", "inf", "sum", "mean", "broadcast_to", "shape", "newaxis", "jax", "numpy", "n_opt_iter", "action_space_shape", "base_predict", "base_distribution", "sample", "reshape", "vmap", "concatenate", "squeeze")):
+            r = _row_of_call(nfo, v, f"{CONFIG}.update_fn")
+            if r is not None and (r[1] in FIRST_ROW or re.fullmatch(r"\[-?\d+\]", r[1])):
+                kinds.add("mean" if r[1] in FIRST_ROW else "other-component")
+                um = nfo.meta[r[0]]
+                if not um.get("args"):
+                    raise AnalysisError(f"{q}: the candidates are not the first positional argument of `{r[0][:60]}` (unrecognised form)")
+                cands = um["args"][0]
+                shown_c = cands.canon()[:90]
+                if _short_fn(nfo, cands.single_atom()) == "sample_fn" and nfo.meta[cands.single_atom()].get("fn") == f"{CONFIG}.sample_fn":
+                    cand_kinds.add("sampled")
+                elif _unread(cands) or "sample_fn" in cands.canon():
+                    raise AnalysisError(f"{q}: the candidates `{shown_c}` handed to update_fn are not read (unrecognised form)")
+                else:
+                    cand_kinds.add("not-sampled")
+            elif _unread(v) or not same_ingredients(v, doc, ("split", "dynamics_model", "randint", "n_particles", "n_ensemble", "n_samples", "plan_horizon", "where", "argmax", "inf", "sum", "mean", "broadcast_to", "shape", "newaxis", "jax", "numpy", "n_opt_iter", "action_space_shape", "base_predict", "base_distribution", "sample", "reshape", "vmap", "concatenate", "squeeze")):
                 raise AnalysisError(f"{q}: returns `{shown}` (unrecognised form)")
             else:
                 kinds.add("not-the-update-result")
@@ -619,31 +1168,64 @@ def run(ck, repo: Repo, tier: str):
             raise AnalysisError(f"{q}: no path with an optimiser iteration reaches the return (unrecognised form)")
         okm = kinds == {"mean"}
         ck.ob("R5-planning-chain", q, "returns-cem-mean", okm, f"return {shown}", "" if okm else "the optimiser must return the CEM mean (convex combination of in-box elites)", loc(fn._module, fn))
-        q = "rl_blox.algorithm.pets._pets_opt_iter"
-        fn = repo.func(q)
-        txt = "\n".join(ast.unparse(s) for s in fn.body)
-        ok = "actions = config.sample_fn(mean, var, sampling_key)" in txt and "mean, var = config.update_fn(actions, expected_returns, mean, var)" in txt
-        ck.ob("R5-planning-chain", q, "sample-then-update", ok, "actions = sample_fn(mean, var, key); mean, var = update_fn(actions, returns, mean, var)", "" if ok else "candidates must come from sample_fn and the mean from update_fn on those candidates", loc(fn._module, fn))
-    ck.guard(_section_8)
+        if cand_kinds:
+            okc = cand_kinds == {"sampled"}
+            ck.ob("R5-planning-chain", q, "sample-then-update", okc, f"update_fn({shown_c}, ...)", "" if okc else "candidates must come from sample_fn (the bounded proposal) and the mean from update_fn on those candidates", loc(fn._module, fn))
+    _guard(_section_8)
     def _section_9():
-        # train_pets config: avg_act mid-point, init_var, bounds from the same env
+        # train_pets config: avg_act mid-point, bounds from the same env
         q = "rl_blox.algorithm.pets.train_pets"
+        L = find_env_loop(repo, q)
         fn = repo.func(q)
         mi = fn._module
-        cfgc = [c for c in ast.walk(fn) if isinstance(c, ast.Call) and dotted(c.func) == "PETSMPCConfig"]
-        ck.need(len(cfgc) == 1, f"{q}: PETSMPCConfig construction not found")
-        kw = {k.arg: k.value for k in cfgc[0].keywords}
+        ENV = L.env
         cfgt = nf.cfg_of(fn)
-        at_cfg = cfgt.node_of(cfgc[0]).id
-        sc = Scope(cfgt, mi, {"env": Poly.atom("env")}, q)
-        got = nf.poly(kw["avg_act"], sc, at_cfg) if "avg_act" in kw else None
-        want = nf.poly(parse_expr("jnp.asarray(0.5 * (env.action_space.high + env.action_space.low))"), Scope(None, mi, {"env": Poly.atom("env")}, q), None)
-        ok = got is not None and got == want
-        ck.ob("R5-planning-chain", q, "mid-point", ok, f"avg_act = {got.canon()[:80] if got is not None else None}", "" if ok else "avg_act must be the mid-point 0.5*(high+low) of the action space", loc(mi, cfgc[0]))
-        init = [c for c in ast.walk(fn) if isinstance(c, ast.Call) and dotted(c.func) == "_init_mpc_optimizer_cem"]
-        ok = len(init) == 1 and init[0].args and nf.poly(init[0].args[0], sc, cfgt.node_of(init[0]).id).canon() == "env.action_space"
-        ck.ob("R5-planning-chain", q, "optimizer-space", ok, f"{short(init[0], 70) if init else None}", "" if ok else "the CEM bounds must come from env.action_space", loc(mi, fn))
-    ck.guard(_section_9)
+        sc = Scope(cfgt, mi, {p: Poly.atom(p, {p}, {p}) for p in param_names(fn)}, q)
+
+        def _calls_of(target):
+            out = []
+            for c in ast.walk(fn):
+                if isinstance(c, ast.Call) and isinstance(c.func, (ast.Name, ast.Attribute)):
+                    try:
+                        r = repo.resolve_expr(mi, c.func)
+                    except Exception:
+                        r = None
+                    if r == target:
+                        out.append(c)
+            return out
+        CFGQ = "rl_blox.algorithm.pets.PETSMPCConfig"
+        cfgc = _calls_of(CFGQ)
+        if len(cfgc) != 1:
+            raise AnalysisError(f"{q}: {len(cfgc)} PETSMPCConfig constructions (unrecognised form)")
+        call = cfgc[0]
+        if any(isinstance(x, ast.Starred) for x in call.args) or any(k.arg is None for k in call.keywords):
+            raise AnalysisError(f"{q}: `{short(call, 60)}` is built from unpacked arguments (unrecognised form)")
+        fields = [st.target.id for st in repo.cls(CFGQ).body if isinstance(st, ast.AnnAssign) and isinstance(st.target, ast.Name)]
+        kw = dict(zip(fields, call.args))
+        kw.update({k.arg: k.value for k in call.keywords})
+        if "avg_act" not in kw:
+            raise AnalysisError(f"{q}: the avg_act field of `{short(call, 60)}` is not read (unrecognised form)")
+        at_cfg = _node_containing(cfgt, call)
+        ck.need(at_cfg is not None, f"{q}: PETSMPCConfig construction is not a statement of the routine")
+        got = nf.poly(kw["avg_act"], sc, at_cfg)
+        want = nf.poly(parse_expr(f"jnp.asarray(0.5 * ({ENV}.action_space.high + {ENV}.action_space.low))"), Scope(None, mi, {ENV: Poly.atom(ENV, {ENV}, {ENV})}, q), None)
+        _decide(ck, nf, "R5-planning-chain", q, "mid-point", got, want, f"avg_act = {got.canon()[:80]}", "avg_act must be the mid-point 0.5*(high+low) of the action space", loc(mi, call))
+        IQ = "rl_blox.algorithm.pets._init_mpc_optimizer_cem"
+        init = _calls_of(IQ)
+        if len(init) != 1:
+            raise AnalysisError(f"{q}: {len(init)} calls of _init_mpc_optimizer_cem (unrecognised form)")
+        ifn = repo.func(IQ)
+        b = bind_call(ifn, init[0])
+        sp = param_names(ifn)[0] if param_names(ifn) else None
+        at_i = _node_containing(cfgt, init[0])
+        if sp is None or sp not in b or at_i is None or any(isinstance(x, ast.Starred) for x in init[0].args) or any(k.arg is None for k in init[0].keywords):
+            raise AnalysisError(f"{q}: the action space argument of `{short(init[0], 60)}` is not read (unrecognised form)")
+        pv = nf.poly(b[sp], sc, at_i)
+        ok = pv.canon() == f"{ENV}.action_space"
+        if not ok and not _foreign(pv, param_names(fn)):
+            raise AnalysisError(f"{q}: the planner is built for `{pv.canon()[:60]}`, which is not read as a space (unrecognised form)")
+        ck.ob("R5-planning-chain", q, "optimizer-space", ok, f"{short(init[0], 70)}", "" if ok else f"the CEM bounds must come from {ENV}.action_space, not from `{pv.canon()[:60]}`", loc(mi, fn))
+    _guard(_section_9)
 
 
 _D, _T, _H, _C, _P = "rl_blox/algorithm/ddpg.py", "rl_blox/algorithm/td3.py", "rl_blox/blox/function_approximator/policy_head.py", "rl_blox/blox/cross_entropy_method.py", "rl_blox/algorithm/pets.py"
@@ -670,6 +1252,17 @@ MUTANTS = [
     {"id": "c10-pets-bounds-swapped", "file": _P, "rule": "R5", "find": "            lb=lower_bound,\n            ub=upper_bound,", "replace": "            lb=upper_bound,\n            ub=lower_bound,"},
     {"id": "c10-pets-avg-act", "file": _P, "rule": "R5", "find": "            0.5 * (env.action_space.high + env.action_space.low)", "replace": "            0.5 * (env.action_space.high - env.action_space.low)"},
     {"id": "c10-pets-last-plan-step", "file": _P, "rule": "R5", "find": "    return plan[0]", "replace": "    return plan[-1] + plan[0]"},
+    {"id": 'c10-loop-direct-partial-full-range', 'file': 'rl_blox/algorithm/ddpg.py', 'rule': 'R1', 'find': '    _sample_actions = make_sample_actions(env.action_space, exploration_noise)', 'replace': '    _sample_actions = nnx.jit(partial(sample_actions, env.action_space.low, env.action_space.high, env.action_space.high - env.action_space.low, exploration_noise))'},
+    {"id": 'c10-pets-warmup-other-space', 'file': 'rl_blox/algorithm/pets.py', 'rule': 'R5', 'find': '            action = action_space.sample()', 'replace': '            action = env.observation_space.sample()'},
+    {"id": 'c10-wrapper-rescales-action', 'file': 'rl_blox/blox/embedding/sale.py', 'rule': 'R3', 'find': '        return self.policy_net(he)', 'replace': '        return 2.0 * self.policy_net(he)'},
+    {"id": 'c10-tanh-scale-trainable', 'file': 'rl_blox/blox/function_approximator/policy_head.py', 'rule': 'R3', 'nth': 0, 'find': '        self.action_scale = nnx.Variable(\n', 'replace': '        self.action_scale = nnx.Param(\n'},
+    {"id": 'c10-pets-alpha-above-one', 'file': 'rl_blox/algorithm/pets.py', 'rule': 'R5', 'find': '            cem_update,\n            n_elite=n_elite,\n            alpha=alpha,', 'replace': '            cem_update,\n            n_elite=n_elite,\n            alpha=1.5,'},
+    {"id": 'c10-mpc-initial-plan-doubled', 'file': 'rl_blox/algorithm/pets.py', 'rule': 'R5', 'find': '        plan = jnp.broadcast_to(config.avg_act, state.prev_plan.shape)', 'replace': '        plan = 2.0 * state.prev_plan'},
+    {"id": 'c10-mpc-padding-doubled', 'file': 'rl_blox/algorithm/pets.py', 'rule': 'R5', 'find': '        (plan[1:], config.avg_act[jnp.newaxis]), axis=0', 'replace': '        (plan[1:], 2.0 * config.avg_act[jnp.newaxis]), axis=0'},
+    {"id": 'c10-mpc-last-row', 'file': 'rl_blox/algorithm/pets.py', 'rule': 'R5', 'find': '    return plan[0]\n', 'replace': '    return plan[-1]\n'},
+    {"id": 'c10-pets-candidates-unbounded', 'file': 'rl_blox/algorithm/pets.py', 'rule': 'R5', 'find': '    actions = config.sample_fn(mean, var, sampling_key)\n', 'replace': '    actions = mean[jnp.newaxis] + jnp.sqrt(var)[jnp.newaxis] * jax.random.normal(sampling_key, (config.n_samples,) + mean.shape)\n'},
+    {"id": 'c10-pets-optimizer-other-space', 'file': 'rl_blox/algorithm/pets.py', 'rule': 'R5', 'find': '    sample_fn, update_fn = _init_mpc_optimizer_cem(\n        env.action_space, plan_horizon, n_samples\n    )', 'replace': '    sample_fn, update_fn = _init_mpc_optimizer_cem(\n        env.observation_space, plan_horizon, n_samples\n    )'},
+    {"id": "c10-cem-clip-swapped", "file": _C, "rule": "R4", "find": "    return samples\n\n\ndef cem_update(", "replace": "    return jnp.clip(samples, ub, lb)\n\n\ndef cem_update("},
 ]
 BENIGN = [
     {"id": "c10-b-bounds-tile", "file": "rl_blox/algorithm/pets.py", "find": "    lower_bound = jnp.vstack([action_space.low for _ in range(plan_horizon)])", "replace": "    lower_bound = jnp.tile(action_space.low, (plan_horizon, 1))"},
@@ -682,4 +1275,30 @@ BENIGN = [
     {"id": "c10-b-inline-explore", "file": _D, "find": "    exploring_action = action + eps\n    return jnp.clip(exploring_action, action_low, action_high)", "replace": "    return jnp.clip(eps + action, action_low, action_high)"},
     {"id": "c10-b-tanh-commuted", "file": _H, "find": "        return nnx.tanh(y) * jnp.broadcast_to(\n            self.action_scale.value, y.shape\n        ) + jnp.broadcast_to(self.action_bias.value, y.shape)", "replace": "        return jnp.broadcast_to(self.action_bias.value, y.shape) + jnp.broadcast_to(\n            self.action_scale.value, y.shape\n        ) * nnx.tanh(y)"},
     {"id": "c10-b-cem-local", "file": _C, "find": "    lb_dist = mean - lb\n    ub_dist = ub - mean\n", "replace": "    ub_dist = ub - mean\n    lb_dist = mean - lb\n"},
+    {"id": 'c10-b-sampler-params-renamed', 'file': 'rl_blox/algorithm/ddpg.py', 'edits': [('    policy: DeterministicTanhPolicy,\n    obs: jnp.ndarray,\n    key: jnp.ndarray,\n) -> jnp.ndarray:\n    r"""Sample actions with deterministic policy and Gaussian action noise.', '    policy: DeterministicTanhPolicy,\n    observation: jnp.ndarray,\n    rng_key: jnp.ndarray,\n) -> jnp.ndarray:\n    r"""Sample actions with deterministic policy and Gaussian action noise.'), ('    action = policy(obs)\n    eps = (\n        exploration_noise * action_scale * jax.random.normal(key, action.shape)\n    )\n    exploring_action', '    action = policy(observation)\n    eps = (\n        exploration_noise * action_scale * jax.random.normal(rng_key, action.shape)\n    )\n    exploring_action')]},
+    {"id": 'c10-b-sampler-bounds-renamed', 'file': 'rl_blox/algorithm/ddpg.py', 'edits': [('def sample_actions(\n    action_low: jnp.ndarray,\n    action_high: jnp.ndarray,', 'def sample_actions(\n    low: jnp.ndarray,\n    high: jnp.ndarray,'), ('    return jnp.clip(exploring_action, action_low, action_high)', '    return jnp.clip(exploring_action, low, high)')]},
+    {"id": 'c10-b-sampler-early-return', 'file': 'rl_blox/algorithm/ddpg.py', 'find': '    action = policy(obs)\n    eps = (', 'replace': '    action = policy(obs)\n    if not exploration_noise:\n        return jnp.clip(action, action_low, action_high)\n    eps = ('},
+    {"id": 'c10-b-factory-param-renamed', 'file': 'rl_blox/algorithm/ddpg.py', 'edits': [('def make_sample_actions(\n    action_space: gym.spaces.Box,', 'def make_sample_actions(\n    space: gym.spaces.Box,'), ('    action_scale = 0.5 * (action_space.high - action_space.low)\n    return nnx.jit(\n        partial(\n            sample_actions,\n            action_space.low,\n            action_space.high,', '    action_scale = 0.5 * (space.high - space.low)\n    return nnx.jit(\n        partial(\n            sample_actions,\n            space.low,\n            space.high,')]},
+    {"id": 'c10-b-factory-closure', 'file': 'rl_blox/algorithm/ddpg.py', 'find': '    return nnx.jit(\n        partial(\n            sample_actions,\n            action_space.low,\n            action_space.high,\n            action_scale,\n            exploration_noise,\n        )\n    )', 'replace': '    @nnx.jit\n    def _sample(policy, obs, key):\n        return sample_actions(action_space.low, action_space.high, action_scale, exploration_noise, policy, obs, key)\n\n    return _sample'},
+    {"id": 'c10-b-loop-space-in-local', 'file': 'rl_blox/algorithm/td3.py', 'find': '    _sample_actions = make_sample_actions(env.action_space, exploration_noise)', 'replace': '    act_space = env.action_space\n    _sample_actions = make_sample_actions(act_space, exploration_noise)'},
+    {"id": 'c10-b-loop-factory-keywords', 'file': 'rl_blox/algorithm/td3.py', 'find': '    _sample_actions = make_sample_actions(env.action_space, exploration_noise)', 'replace': '    _sample_actions = make_sample_actions(exploration_noise=exploration_noise, action_space=env.action_space)'},
+    {"id": 'c10-b-loop-direct-partial', 'file': 'rl_blox/algorithm/ddpg.py', 'find': '    _sample_actions = make_sample_actions(env.action_space, exploration_noise)', 'replace': '    _sample_actions = nnx.jit(partial(sample_actions, env.action_space.low, env.action_space.high, 0.5 * (env.action_space.high - env.action_space.low), exploration_noise))'},
+    {"id": 'c10-b-head-annotated-assignment', 'file': 'rl_blox/blox/function_approximator/policy_head.py', 'nth': 0, 'find': '        self.action_scale = nnx.Variable(\n', 'replace': '        self.action_scale: nnx.Variable = nnx.Variable(\n'},
+    {"id": 'c10-b-head-scaling-in-base-class', 'file': 'rl_blox/blox/function_approximator/policy_head.py', 'edits': [('class DeterministicTanhPolicy(nnx.Module):', 'class _TanhScaling(nnx.Module):\n    def scale_output(self, y: jnp.ndarray) -> jnp.ndarray:\n        return nnx.tanh(y) * jnp.broadcast_to(\n            self.action_scale.value, y.shape\n        ) + jnp.broadcast_to(self.action_bias.value, y.shape)\n\n\nclass DeterministicTanhPolicy(_TanhScaling):'), ('        return self.scale_output(y)\n\n    def scale_output(self, y: jnp.ndarray) -> jnp.ndarray:\n        return nnx.tanh(y) * jnp.broadcast_to(\n            self.action_scale.value, y.shape\n        ) + jnp.broadcast_to(self.action_bias.value, y.shape)\n', '        return self.scale_output(y)\n')]},
+    {"id": 'c10-b-head-constructor-in-base-class', 'file': 'rl_blox/blox/function_approximator/policy_head.py', 'edits': [('class DeterministicTanhPolicy(nnx.Module):', 'class _BoxScaled(nnx.Module):\n    def __init__(self, policy_net: nnx.Module, action_space: gym.spaces.Box):\n        self.policy_net = policy_net\n        self.action_scale = nnx.Variable(\n            jnp.array((action_space.high - action_space.low) / 2.0)\n        )\n        self.action_bias = nnx.Variable(\n            jnp.array((action_space.high + action_space.low) / 2.0)\n        )\n\n\nclass DeterministicTanhPolicy(_BoxScaled):'), ('    def __init__(self, policy_net: nnx.Module, action_space: gym.spaces.Box):\n        self.policy_net = policy_net\n        self.action_scale = nnx.Variable(\n            jnp.array((action_space.high - action_space.low) / 2.0)\n        )\n        self.action_bias = nnx.Variable(\n            jnp.array((action_space.high + action_space.low) / 2.0)\n        )\n\n    def __call__(self, observation: jnp.ndarray) -> jnp.ndarray:\n        y = self.policy_net(observation)', '    def __call__(self, observation: jnp.ndarray) -> jnp.ndarray:\n        y = self.policy_net(observation)')]},
+    {"id": 'c10-b-head-tuple-assignment', 'file': 'rl_blox/blox/function_approximator/policy_head.py', 'nth': 0, 'find': '        self.action_scale = nnx.Variable(\n            jnp.array((action_space.high - action_space.low) / 2.0)\n        )\n        self.action_bias = nnx.Variable(\n            jnp.array((action_space.high + action_space.low) / 2.0)\n        )', 'replace': '        low, high = action_space.low, action_space.high\n        self.action_scale, self.action_bias = nnx.Variable(jnp.array((high - low) / 2.0)), nnx.Variable(jnp.array((high + low) / 2.0))'},
+    {"id": 'c10-b-head-param-renamed', 'file': 'rl_blox/blox/function_approximator/policy_head.py', 'find': '    def scale_output(self, y: jnp.ndarray) -> jnp.ndarray:\n        return nnx.tanh(y) * jnp.broadcast_to(\n            self.action_scale.value, y.shape\n        ) + jnp.broadcast_to(self.action_bias.value, y.shape)', 'replace': '    def scale_output(self, raw: jnp.ndarray) -> jnp.ndarray:\n        return nnx.tanh(raw) * jnp.broadcast_to(\n            self.action_scale.value, raw.shape\n        ) + jnp.broadcast_to(self.action_bias.value, raw.shape)'},
+    {"id": 'c10-b-wrapper-local', 'file': 'rl_blox/blox/embedding/model_based_encoder.py', 'find': '        return self.policy(self.encoder.encode_zs(observation))', 'replace': '        zs = self.encoder.encode_zs(observation)\n        return self.policy(zs)'},
+    {"id": 'c10-b-wrapper-attribute-renamed', 'file': 'rl_blox/blox/embedding/sale.py', 'edits': [('        self.policy_net = policy_net\n        self.l0 = nnx.Linear(n_state_features', '        self.head = policy_net\n        self.l0 = nnx.Linear(n_state_features'), ('        return self.policy_net(he)', '        return self.head(he)')]},
+    {"id": 'c10-b-opt-iter-local-renamed', 'file': 'rl_blox/algorithm/pets.py', 'edits': [('    actions = config.sample_fn(mean, var, sampling_key)\n    chex.assert_shape(\n        actions,', '    candidates = config.sample_fn(mean, var, sampling_key)\n    actions = candidates\n    chex.assert_shape(\n        actions,')]},
+    {"id": 'c10-b-opt-iter-result-locals', 'file': 'rl_blox/algorithm/pets.py', 'edits': [('    mean, var = config.update_fn(actions, expected_returns, mean, var)\n', '    new_mean, new_var = config.update_fn(actions, expected_returns, mean, var)\n    mean, var = new_mean, new_var\n')]},
+    {"id": 'c10-b-mpc-params-renamed', 'file': 'rl_blox/algorithm/pets.py', 'edits': [('def mpc_action(\n    config: PETSMPCConfig,\n    state: PETSMPCState,\n    optimize_fn:', 'def mpc_action(\n    cfg: PETSMPCConfig,\n    mpc: PETSMPCState,\n    optimizer:'), ('    state.key, opt_key = jax.random.split(state.key, 2)\n    if config.init_with_previous_plan:\n        plan = state.prev_plan\n    else:\n        plan = jnp.broadcast_to(config.avg_act, state.prev_plan.shape)\n\n    plan = optimize_fn(state.dynamics_model, plan, opt_key, obs)\n\n    state.prev_plan = jnp.concatenate(\n        (plan[1:], config.avg_act[jnp.newaxis]), axis=0\n    )', '    mpc.key, opt_key = jax.random.split(mpc.key, 2)\n    if cfg.init_with_previous_plan:\n        plan = mpc.prev_plan\n    else:\n        plan = jnp.broadcast_to(cfg.avg_act, mpc.prev_plan.shape)\n\n    plan = optimizer(mpc.dynamics_model, plan, opt_key, obs)\n\n    mpc.prev_plan = jnp.concatenate(\n        (plan[1:], cfg.avg_act[jnp.newaxis]), axis=0\n    )')]},
+    {"id": 'c10-b-mpc-locals', 'file': 'rl_blox/algorithm/pets.py', 'edits': [('    plan = optimize_fn(state.dynamics_model, plan, opt_key, obs)\n\n    state.prev_plan = jnp.concatenate(\n        (plan[1:], config.avg_act[jnp.newaxis]), axis=0\n    )\n\n    return plan[0]', '    best = optimize_fn(state.dynamics_model, plan, opt_key, obs)\n    first, rest = best[0], best[1:]\n    state.prev_plan = jnp.concatenate(\n        (rest, config.avg_act[jnp.newaxis]), axis=0\n    )\n    return first')]},
+    {"id": 'c10-b-mpc-pad-none-axis', 'file': 'rl_blox/algorithm/pets.py', 'find': '        (plan[1:], config.avg_act[jnp.newaxis]), axis=0', 'replace': '        (plan[1:], config.avg_act[None]), axis=0'},
+    {"id": 'c10-b-pets-init-keywords', 'file': 'rl_blox/algorithm/pets.py', 'find': '    sample_fn, update_fn = _init_mpc_optimizer_cem(\n        env.action_space, plan_horizon, n_samples\n    )', 'replace': '    sample_fn, update_fn = _init_mpc_optimizer_cem(\n        action_space=env.action_space, plan_horizon=plan_horizon, n_samples=n_samples\n    )'},
+    {"id": 'c10-b-pets-config-positional', 'file': 'rl_blox/algorithm/pets.py', 'find': '    mpc_config = PETSMPCConfig(\n        plan_horizon=plan_horizon,\n        n_particles=n_particles,', 'replace': '    mpc_config = PETSMPCConfig(\n        plan_horizon,\n        n_particles=n_particles,'},
+    {"id": 'c10-b-pets-step-keyword', 'file': 'rl_blox/algorithm/pets.py', 'find': '        next_obs, reward, termination, truncation, info = env.step(action)', 'replace': '        next_obs, reward, termination, truncation, info = env.step(action=action)'},
+    {"id": 'c10-b-cem-params-renamed', 'file': 'rl_blox/blox/cross_entropy_method.py', 'edits': [('def cem_sample(\n    mean: jnp.ndarray,\n    var: jnp.ndarray,', 'def cem_sample(\n    mu: jnp.ndarray,\n    sigma2: jnp.ndarray,'), ('    chex.assert_equal_shape((mean, var))\n    chex.assert_equal_shape((mean, lb))\n    chex.assert_equal_shape((mean, ub))\n\n    lb_dist = mean - lb\n    ub_dist = ub - mean\n    constrained_var = jnp.minimum(\n        jnp.minimum((0.5 * lb_dist) ** 2, (0.5 * ub_dist) ** 2),\n        var,\n    )\n    samples = (\n        jax.random.truncated_normal(\n            step_key, -2.0, 2.0, shape=(n_population,) + mean.shape\n        )\n        * jnp.sqrt(constrained_var)[jnp.newaxis]\n        + mean[jnp.newaxis]\n    )', '    chex.assert_equal_shape((mu, sigma2))\n    chex.assert_equal_shape((mu, lb))\n    chex.assert_equal_shape((mu, ub))\n\n    lb_dist = mu - lb\n    ub_dist = ub - mu\n    constrained_var = jnp.minimum(\n        jnp.minimum((0.5 * lb_dist) ** 2, (0.5 * ub_dist) ** 2),\n        sigma2,\n    )\n    samples = (\n        jax.random.truncated_normal(\n            step_key, -2.0, 2.0, shape=(n_population,) + mu.shape\n        )\n        * jnp.sqrt(constrained_var)[jnp.newaxis]\n        + mu[jnp.newaxis]\n    )')]},
+    {"id": 'c10-b-cem-update-params-renamed', 'file': 'rl_blox/blox/cross_entropy_method.py', 'edits': [('    fitness: jnp.ndarray,\n    mean: jnp.ndarray,\n    var: jnp.ndarray,\n    n_elite: int,\n    alpha: float,\n) -> tuple[jnp.ndarray, jnp.ndarray]:', '    fitness: jnp.ndarray,\n    old_mean: jnp.ndarray,\n    old_var: jnp.ndarray,\n    n_elite: int,\n    alpha: float,\n) -> tuple[jnp.ndarray, jnp.ndarray]:'), ('    mean = alpha * mean + (1.0 - alpha) * jnp.mean(elites, axis=0)\n    var = alpha * var + (1.0 - alpha) * jnp.var(elites, axis=0)', '    mean = alpha * old_mean + (1.0 - alpha) * jnp.mean(elites, axis=0)\n    var = alpha * old_var + (1.0 - alpha) * jnp.var(elites, axis=0)')]},
+    {"id": 'c10-b-init-cem-param-renamed', 'file': 'rl_blox/algorithm/pets.py', 'edits': [('def _init_mpc_optimizer_cem(\n    action_space: gym.spaces.Box,', 'def _init_mpc_optimizer_cem(\n    box: gym.spaces.Box,'), ('    lower_bound = jnp.vstack([action_space.low for _ in range(plan_horizon)])\n    upper_bound = jnp.vstack([action_space.high for _ in range(plan_horizon)])', '    lower_bound = jnp.vstack([box.low for _ in range(plan_horizon)])\n    upper_bound = jnp.vstack([box.high for _ in range(plan_horizon)])')]},
 ]
